@@ -1,1 +1,967 @@
-// harnesses for vu_backend_req_handler
+// Child module of vhost::vhost_user::backend_req_handler.
+//
+// Entry level (E): the real BackendReqHandler::handle_request over the ghost kernel, one harness
+// per request code and header-flag class; body bytes, attached-descriptor count, negotiation
+// state words and handler outcome symbolic.  One run of `e_backend` asserts, for that request:
+//   C02 (backend half)  handler invoked exactly once with the values the peer encoded
+//   C03 (backend half)  reply bytes = spec encoding of the handler's outcome
+//   C04                 bytes consumed, exactly the prescribed reply/ack/nothing, next state
+//   C05                 handler invoked only for protocol-valid requests; no panic/overflow/OOB
+//   C07                 handler invoked only if the gating feature was acknowledged
+//   C09                 every installed descriptor is owned by the handler or closed exactly once
+// Unit level (U): the private parsing helpers with fully symbolic header words.
+use super::*;
+use crate::vhost_user::verif::ghost as g;
+use crate::vhost_user::verif::spec;
+use crate::vhost_user::verif::spec::fe;
+use std::mem::ManuallyDrop;
+
+// ------------------------------------------------------------- recording handler
+// The record and the scripted outcome live in statics (not in the handler object): a Mutex<Rec>
+// whose payload has symbolic fields makes CBMC lose the concrete futex word and explore the
+// contended-lock paths.
+pub(crate) struct Rec;
+pub(crate) struct RecData {
+    pub calls: u32,
+    pub op: u32,
+    pub a: [u64; 6],
+    pub nfiles: u32,
+    pub fd0: RawFd,
+    pub fd1: RawFd,
+    pub bytes: [u8; 8],
+    pub nbytes: usize,
+    // script
+    pub fail: bool,
+    pub ret: u64,
+    pub ret2: u64,
+    pub ret_file: bool,
+    pub ret_len: usize,
+    pub ret_bytes: [u8; 8],
+}
+pub(crate) static mut R: RecData = RecData {
+    calls: 0, op: 0, a: [0; 6], nfiles: 0, fd0: -1, fd1: -1, bytes: [0; 8], nbytes: 0,
+    fail: false, ret: 0x5eed, ret2: 0, ret_file: false, ret_len: 0, ret_bytes: [0x5a; 8],
+};
+#[allow(static_mut_refs)]
+fn rd() -> &'static mut RecData {
+    // SAFETY: single-threaded harness
+    unsafe { &mut R }
+}
+impl Rec {
+    fn script() {
+        let r = rd();
+        r.fail = kani::any();
+        r.ret = kani::any();
+        r.ret2 = kani::any();
+        r.ret_file = kani::any();
+        r.ret_bytes = kani::any();
+    }
+    fn hit(&mut self, op: u32) {
+        rd().calls += 1;
+        rd().op = op;
+    }
+    fn res(&self) -> Result<()> {
+        if rd().fail { Err(Error::InvalidParam) } else { Ok(()) }
+    }
+    fn own(&mut self, f: File) {
+        let fd = f.into_raw_fd();
+        let r = rd();
+        if r.nfiles == 0 { r.fd0 = fd } else { r.fd1 = fd }
+        r.nfiles += 1;
+        if fd >= g::FD_BASE && fd < g::FD_BASE + g::FD_N as RawFd {
+            // SAFETY: single-threaded harness
+            unsafe { g::G.fd_owned[(fd - g::FD_BASE) as usize] = true };
+        }
+    }
+}
+pub(crate) const RET_FD: RawFd = 60; // descriptor the handler "returns" in fd-bearing replies
+
+impl VhostUserBackendReqHandlerMut for Rec {
+    fn set_owner(&mut self) -> Result<()> { self.hit(fe::SET_OWNER); self.res() }
+    fn reset_owner(&mut self) -> Result<()> { self.hit(fe::RESET_OWNER); self.res() }
+    fn reset_device(&mut self) -> Result<()> { self.hit(fe::RESET_DEVICE); self.res() }
+    fn get_features(&mut self) -> Result<u64> { self.hit(fe::GET_FEATURES); self.res().map(|_| rd().ret) }
+    fn set_features(&mut self, features: u64) -> Result<()> { self.hit(fe::SET_FEATURES); rd().a[0] = features; self.res() }
+    fn set_mem_table(&mut self, ctx: &[VhostUserMemoryRegion], files: Vec<File>) -> Result<()> {
+        self.hit(fe::SET_MEM_TABLE);
+        rd().a[0] = ctx.len() as u64;
+        rd().a[1] = files.len() as u64;
+        if ctx.len() >= 1 {
+            let r = ctx[0];
+            rd().a[2] = r.guest_phys_addr; rd().a[3] = r.memory_size; rd().a[4] = r.user_addr; rd().a[5] = r.mmap_offset;
+        }
+        if ctx.len() >= 2 {
+            let r = ctx[1];
+            rd().ret_bytes = [0; 8];
+            rd().bytes = r.guest_phys_addr.to_le_bytes();
+            rd().ret2 = r.memory_size; // reuse as record of second region
+            rd().ret = r.user_addr ^ r.mmap_offset.rotate_left(17);
+        }
+        for f in files { self.own(f); }
+        self.res()
+    }
+    fn set_vring_num(&mut self, index: u32, num: u32) -> Result<()> { self.hit(fe::SET_VRING_NUM); rd().a[0] = index as u64; rd().a[1] = num as u64; self.res() }
+    fn set_vring_addr(&mut self, index: u32, flags: VhostUserVringAddrFlags, descriptor: u64, used: u64, available: u64, log: u64) -> Result<()> {
+        self.hit(fe::SET_VRING_ADDR);
+        rd().a = [index as u64, flags.bits() as u64, descriptor, used, available, log];
+        self.res()
+    }
+    fn set_vring_base(&mut self, index: u32, base: u32) -> Result<()> { self.hit(fe::SET_VRING_BASE); rd().a[0] = index as u64; rd().a[1] = base as u64; self.res() }
+    fn get_vring_base(&mut self, index: u32) -> Result<VhostUserVringState> {
+        self.hit(fe::GET_VRING_BASE); rd().a[0] = index as u64;
+        self.res().map(|_| VhostUserVringState::new(rd().ret as u32, (rd().ret >> 32) as u32))
+    }
+    fn set_vring_kick(&mut self, index: u8, fd: Option<File>) -> Result<()> { self.hit(fe::SET_VRING_KICK); rd().a[0] = index as u64; rd().a[1] = fd.is_some() as u64; if let Some(f) = fd { self.own(f) } self.res() }
+    fn set_vring_call(&mut self, index: u8, fd: Option<File>) -> Result<()> { self.hit(fe::SET_VRING_CALL); rd().a[0] = index as u64; rd().a[1] = fd.is_some() as u64; if let Some(f) = fd { self.own(f) } self.res() }
+    fn set_vring_err(&mut self, index: u8, fd: Option<File>) -> Result<()> { self.hit(fe::SET_VRING_ERR); rd().a[0] = index as u64; rd().a[1] = fd.is_some() as u64; if let Some(f) = fd { self.own(f) } self.res() }
+    fn get_protocol_features(&mut self) -> Result<VhostUserProtocolFeatures> {
+        self.hit(fe::GET_PROTOCOL_FEATURES);
+        self.res().map(|_| VhostUserProtocolFeatures::from_bits_retain(rd().ret))
+    }
+    fn set_protocol_features(&mut self, features: u64) -> Result<()> { self.hit(fe::SET_PROTOCOL_FEATURES); rd().a[0] = features; self.res() }
+    fn get_queue_num(&mut self) -> Result<u64> { self.hit(fe::GET_QUEUE_NUM); self.res().map(|_| rd().ret) }
+    fn set_vring_enable(&mut self, index: u32, enable: bool) -> Result<()> { self.hit(fe::SET_VRING_ENABLE); rd().a[0] = index as u64; rd().a[1] = enable as u64; self.res() }
+    fn get_config(&mut self, offset: u32, size: u32, flags: VhostUserConfigFlags) -> Result<Vec<u8>> {
+        self.hit(fe::GET_CONFIG);
+        rd().a[0] = offset as u64; rd().a[1] = size as u64; rd().a[2] = flags.bits() as u64;
+        if rd().fail { return Err(Error::InvalidParam); }
+        let mut v = rd().ret_bytes.to_vec();
+        v.truncate(rd().ret_len);
+        Ok(v)
+    }
+    fn set_config(&mut self, offset: u32, buf: &[u8], flags: VhostUserConfigFlags) -> Result<()> {
+        self.hit(fe::SET_CONFIG);
+        rd().a[0] = offset as u64; rd().a[1] = buf.len() as u64; rd().a[2] = flags.bits() as u64;
+        rd().nbytes = buf.len();
+        if buf.len() > 0 { rd().bytes[0] = buf[0]; }
+        if buf.len() > 1 { rd().bytes[1] = buf[1]; }
+        if buf.len() > 2 { rd().bytes[2] = buf[2]; }
+        if buf.len() > 3 { rd().bytes[3] = buf[3]; }
+        self.res()
+    }
+    fn set_backend_req_fd(&mut self, backend: Backend) {
+        self.hit(fe::SET_BACKEND_REQ_FD);
+        // SAFETY: single-threaded harness; exactly one descriptor (100) can reach this point
+        unsafe { g::G.fd_owned[0] = true };
+        std::mem::forget(backend);
+    }
+    fn set_gpu_socket(&mut self, gpu_backend: GpuBackend) -> Result<()> {
+        self.hit(fe::GPU_SET_SOCKET);
+        unsafe { g::G.fd_owned[0] = true };
+        std::mem::forget(gpu_backend);
+        self.res()
+    }
+    fn get_shared_object(&mut self, uuid: VhostUserSharedMsg) -> Result<File> {
+        self.hit(fe::GET_SHARED_OBJECT);
+        let b = uuid.uuid.as_bytes();
+        rd().a[0] = spec::rd64(b, 0); rd().a[1] = spec::rd64(b, 8);
+        // SAFETY: descriptor number only; never used for I/O in the model
+        self.res().map(|_| unsafe { File::from_raw_fd(RET_FD) })
+    }
+    fn get_inflight_fd(&mut self, inflight: &VhostUserInflight) -> Result<(VhostUserInflight, File)> {
+        self.hit(fe::GET_INFLIGHT_FD);
+        rd().a = [inflight.mmap_size, inflight.mmap_offset, inflight.num_queues as u64, inflight.queue_size as u64, 0, 0];
+        self.res().map(|_| (VhostUserInflight::new(rd().ret, rd().ret2, rd().ret_bytes[0] as u16 | 0x100, rd().ret_bytes[1] as u16 | 0x200), unsafe { File::from_raw_fd(RET_FD) }))
+    }
+    fn set_inflight_fd(&mut self, inflight: &VhostUserInflight, file: File) -> Result<()> {
+        self.hit(fe::SET_INFLIGHT_FD);
+        rd().a = [inflight.mmap_size, inflight.mmap_offset, inflight.num_queues as u64, inflight.queue_size as u64, 0, 0];
+        self.own(file);
+        self.res()
+    }
+    fn get_max_mem_slots(&mut self) -> Result<u64> { self.hit(fe::GET_MAX_MEM_SLOTS); self.res().map(|_| rd().ret) }
+    fn add_mem_region(&mut self, region: &VhostUserSingleMemoryRegion, fd: File) -> Result<()> {
+        self.hit(fe::ADD_MEM_REG);
+        rd().a = [region.guest_phys_addr, region.memory_size, region.user_addr, region.mmap_offset, 0, 0];
+        self.own(fd);
+        self.res()
+    }
+    fn remove_mem_region(&mut self, region: &VhostUserSingleMemoryRegion) -> Result<()> {
+        self.hit(fe::REM_MEM_REG);
+        rd().a = [region.guest_phys_addr, region.memory_size, region.user_addr, region.mmap_offset, 0, 0];
+        self.res()
+    }
+    fn set_device_state_fd(&mut self, direction: VhostTransferStateDirection, phase: VhostTransferStatePhase, fd: File) -> Result<Option<File>> {
+        self.hit(fe::SET_DEVICE_STATE_FD);
+        rd().a[0] = direction as u32 as u64; rd().a[1] = phase as u32 as u64;
+        self.own(fd);
+        self.res().map(|_| if rd().ret_file { Some(unsafe { File::from_raw_fd(RET_FD) }) } else { None })
+    }
+    fn check_device_state(&mut self) -> Result<()> { self.hit(fe::CHECK_DEVICE_STATE); self.res() }
+    fn get_shmem_config(&mut self) -> Result<VhostUserShMemConfig> {
+        self.hit(fe::GET_SHMEM_CONFIG);
+        self.res().map(|_| {
+            let mut c = VhostUserShMemConfig::default();
+            c.nregions = rd().ret as u32;
+            c.memory_sizes[0] = rd().ret2;
+            c.memory_sizes[1] = !rd().ret2;
+            c.memory_sizes[2] = rd().ret;
+            c
+        })
+    }
+    fn set_log_base(&mut self, log: &VhostUserLog, file: File) -> Result<()> {
+        self.hit(fe::SET_LOG_BASE);
+        rd().a[0] = log.mmap_size; rd().a[1] = log.mmap_offset;
+        self.own(file);
+        self.res()
+    }
+}
+
+type H = BackendReqHandler<Mutex<Rec>>;
+
+/// endpoint with an arbitrary negotiation state obeying the invariant
+/// reply_ack_enabled == (offered PROTOCOL_FEATURES && acked REPLY_ACK)   (shown inductive by the
+/// `next state` assertions below and by c04_state_invariant_init)
+fn mk_handler(v: u64, av: u64, ap: u64) -> ManuallyDrop<H> {
+    ManuallyDrop::new(BackendReqHandler {
+        // SAFETY: descriptor 5 is never used for real I/O (all socket calls are stubbed)
+        main_sock: Endpoint::from_stream(unsafe { UnixStream::from_raw_fd(5) }),
+        backend: Arc::new(Mutex::new(Rec)),
+        virtio_features: v,
+        acked_virtio_features: av,
+        acked_protocol_features: ap,
+        reply_ack_enabled: spec::reply_ack_on(v, ap),
+        error: None,
+    })
+}
+
+fn body_size(code: u32, cfg_payload: usize) -> usize {
+    match code {
+        fe::SET_FEATURES | fe::SET_PROTOCOL_FEATURES | fe::SET_VRING_KICK | fe::SET_VRING_CALL | fe::SET_VRING_ERR => 8,
+        fe::SET_VRING_NUM | fe::SET_VRING_BASE | fe::GET_VRING_BASE | fe::SET_VRING_ENABLE => 8,
+        fe::SET_VRING_ADDR => 40,
+        fe::SET_MEM_TABLE => 8 + 32 * 2,
+        fe::GET_CONFIG | fe::SET_CONFIG => 12 + cfg_payload,
+        fe::GET_INFLIGHT_FD | fe::SET_INFLIGHT_FD => 24,
+        fe::ADD_MEM_REG | fe::REM_MEM_REG => 40,
+        fe::GET_SHARED_OBJECT => 16,
+        fe::SET_DEVICE_STATE_FD => 8,
+        fe::SET_LOG_BASE => 16,
+        _ => 0,
+    }
+}
+
+/// Is this code implemented by the request server in this build (postcopy feature off)?
+fn served(code: u32) -> bool {
+    !matches!(code, fe::SET_LOG_FD | fe::SEND_RARP | fe::NET_SET_MTU | fe::IOTLB_MSG | fe::SET_VRING_ENDIAN
+        | fe::CREATE_CRYPTO_SESSION | fe::CLOSE_CRYPTO_SESSION | fe::POSTCOPY_ADVISE | fe::POSTCOPY_LISTEN
+        | fe::POSTCOPY_END | fe::VRING_KICK | fe::SET_STATUS | fe::GET_STATUS)
+}
+
+/// One request through the real handle_request.  `code`, `flags`, `size_delta` are concrete per
+/// harness (a symbolic header makes CBMC explore all 44 arms at once, DESIGN.md section 2 row 8).
+fn e_backend(code: u32, flags: u32, size_delta: i32, variant: usize) {
+    // ---- symbolic inputs
+    let v: u64 = kani::any();
+    let av: u64 = kani::any();
+    let ap: u64 = kani::any();
+    let body: [u8; 72] = kani::any();
+    let nfds: usize = if variant == 99 { 0 } else { kani::any() };
+    kani::assume(nfds <= 2);
+    // `variant`: payload length for GET/SET_CONFIG, number of regions the size field allows for SET_MEM_TABLE
+    // (GET_CONFIG: variant = payload length + 16 * length of the data the handler returns)
+    let cfg_payload: usize = if code == fe::GET_CONFIG || code == fe::SET_CONFIG { variant & 15 } else { 0 };
+    let natural = if code == fe::SET_MEM_TABLE { 8 + 32 * variant } else { body_size(code, cfg_payload) };
+    let size = (natural as i32 + size_delta) as usize;
+    let mut h = mk_handler(v, av, ap);
+    // SAFETY: single-threaded harness, ghost state is plain data
+    unsafe {
+        g::put_hdr(0, code, flags, size as u32);
+        g::put64(12, spec::rd64(&body, 0));
+        g::put64(20, spec::rd64(&body, 8));
+        g::put64(28, spec::rd64(&body, 16));
+        g::put64(36, spec::rd64(&body, 24));
+        g::put64(44, spec::rd64(&body, 32));
+        g::put64(52, spec::rd64(&body, 40));
+        g::put64(60, spec::rd64(&body, 48));
+        g::put64(68, spec::rd64(&body, 56));
+        g::put64(76, spec::rd64(&body, 64));
+        g::G.rx_len = 12 + size;
+        g::G.rx_closed = false; // peer stays connected and silent: any over-read blocks forever
+        g::G.rx_nfds = nfds;
+        g::G.rx_fd_call = 1;
+    }
+    Rec::script();
+    if code == fe::GET_CONFIG {
+        // the handler's outcome is concrete per harness here: a symbolic Ok(Vec)/Err merge makes the
+        // payload length non-constant for CBMC and the send loops unbounded (measured: 3.4M steps, OOM)
+        rd().ret_len = (variant >> 4) & 15;
+        rd().fail = variant & 0x100 != 0;
+    }
+    if code == fe::SET_BACKEND_REQ_FD {
+        rd().fail = false; // this handler method returns (): it cannot fail
+    }
+    let (script_fail, ret, ret2, ret_file, ret_bytes, ret_len) = (rd().fail, rd().ret, rd().ret2, rd().ret_file, rd().ret_bytes, rd().ret_len);
+
+    // ---- run the real code
+    let res = h.handle_request();
+    let ok = res.is_ok();
+    std::mem::forget(res);
+
+    // ---- reference: is the request well-formed / valid / permitted?
+    let need_reply = flags & spec::F_NEED_REPLY != 0;
+    // GPU_SET_SOCKET, CHECK_DEVICE_STATE, GET_SHMEM_CONFIG take no arguments and the property states no
+    // size rule for them: the oracle is silent about their size/REPLY bit
+    let lenient = matches!(code, fe::GPU_SET_SOCKET | fe::CHECK_DEVICE_STATE | fe::GET_SHMEM_CONFIG);
+    let hdr_ok = lenient || (flags & spec::F_REPLY == 0 && flags & 3 == 1 && size_delta == 0);
+    let gate = spec::gating_proto_feature(code);
+    let gated_ok = (gate == 0 || ap & gate != 0)
+        && (code != fe::SET_VRING_ENABLE || av & spec::VIRTIO_F_PROTOCOL_FEATURES != 0);
+    let body_ok = match code {
+        fe::SET_VRING_ADDR => spec::valid_vring_addr(&body),
+        fe::SET_VRING_ENABLE => spec::rd32(&body, 4) <= 1,
+        fe::SET_MEM_TABLE => {
+            let n = spec::rd32(&body, 0);
+            spec::valid_memory(&body) && n as usize == variant && spec::valid_region(&body, 8) && (n < 2 || spec::valid_region(&body, 40))
+        }
+        fe::GET_CONFIG | fe::SET_CONFIG => spec::valid_config(&body) && spec::rd32(&body, 4) as usize == cfg_payload,
+        fe::GET_INFLIGHT_FD | fe::SET_INFLIGHT_FD => spec::valid_inflight(&body),
+        fe::ADD_MEM_REG | fe::REM_MEM_REG => spec::valid_single_region(&body),
+        fe::GET_SHARED_OBJECT => spec::valid_shared(&body),
+        fe::SET_DEVICE_STATE_FD => spec::valid_devstate(&body),
+        fe::SET_LOG_BASE => spec::valid_log(&body),
+        _ => true,
+    };
+    let fds_ok = match code {
+        fe::SET_MEM_TABLE => nfds == spec::rd32(&body, 0) as usize,
+        fe::SET_VRING_KICK | fe::SET_VRING_CALL | fe::SET_VRING_ERR => {
+            if spec::rd64(&body, 0) & 0x100 != 0 { nfds == 0 } else { nfds == 1 }
+        }
+        _ => Some(nfds) == spec::required_fds(code),
+    };
+    let wellformed = served(code) && hdr_ok && gated_ok && body_ok && fds_ok;
+
+    let r = rd();
+    // single reachability witness (every satisfied cover costs one ~250 MB JSON trace, see DESIGN.md)
+    let expect_call = served(code) && hdr_ok;
+    kani::cover!(if expect_call { r.calls == 1 && ok } else { !ok && r.calls == 0 }, "witness: accepted request reaches the handler / malformed one is rejected");
+    // ---- C05 / C07 / C02: handler reached exactly for well-formed, permitted requests, once
+    assert!(r.calls <= 1);
+    if r.calls == 1 {
+        assert!(served(code) && hdr_ok, "C05: handler reached for a malformed header");
+        assert!(body_ok, "C05: handler reached with a protocol-invalid body");
+        assert!(fds_ok, "C05: handler reached with a wrong number of descriptors");
+        assert!(gated_ok, "C07: handler reached although the gating feature was not acknowledged");
+        assert!(r.op == code, "C02: wrong handler operation");
+    }
+    if wellformed {
+        assert!(r.calls == 1, "C02: well-formed request did not reach the handler exactly once");
+    }
+    // ---- C02: arguments equal the peer's values
+    if r.calls == 1 {
+        match code {
+            fe::SET_FEATURES | fe::SET_PROTOCOL_FEATURES => assert!(r.a[0] == spec::rd64(&body, 0)),
+            fe::SET_VRING_NUM | fe::SET_VRING_BASE | fe::SET_VRING_ENABLE => {
+                assert!(r.a[0] == spec::rd32(&body, 0) as u64 && r.a[1] == spec::rd32(&body, 4) as u64)
+            }
+            fe::GET_VRING_BASE => assert!(r.a[0] == spec::rd32(&body, 0) as u64),
+            fe::SET_VRING_ADDR => {
+                assert!(r.a[0] == spec::rd32(&body, 0) as u64 && r.a[1] == spec::rd32(&body, 4) as u64);
+                assert!(r.a[2] == spec::rd64(&body, 8) && r.a[3] == spec::rd64(&body, 16));
+                assert!(r.a[4] == spec::rd64(&body, 24) && r.a[5] == spec::rd64(&body, 32));
+            }
+            fe::SET_VRING_KICK | fe::SET_VRING_CALL | fe::SET_VRING_ERR => {
+                assert!(r.a[0] == (spec::rd64(&body, 0) & 0xff));
+                assert!(r.a[1] == nfds as u64 && r.nfiles == nfds as u32);
+                assert!(nfds == 0 || r.fd0 == g::FD_BASE);
+            }
+            fe::SET_MEM_TABLE => {
+                let n = spec::rd32(&body, 0) as u64;
+                assert!(r.a[0] == n && r.a[1] == n && r.nfiles as u64 == n);
+                assert!(r.a[2] == spec::rd64(&body, 8) && r.a[3] == spec::rd64(&body, 16));
+                assert!(r.a[4] == spec::rd64(&body, 24) && r.a[5] == spec::rd64(&body, 32));
+                assert!(r.fd0 == g::FD_BASE);
+                if n == 2 {
+                    assert!(r.bytes == spec::rd64(&body, 40).to_le_bytes() && r.ret2 == spec::rd64(&body, 48));
+                    assert!(r.ret == spec::rd64(&body, 56) ^ spec::rd64(&body, 64).rotate_left(17));
+                    assert!(r.fd1 == g::FD_BASE + 1);
+                }
+            }
+            fe::GET_CONFIG => {
+                assert!(r.a[0] == spec::rd32(&body, 0) as u64 && r.a[1] == spec::rd32(&body, 4) as u64 && r.a[2] == spec::rd32(&body, 8) as u64)
+            }
+            fe::SET_CONFIG => {
+                assert!(r.a[0] == spec::rd32(&body, 0) as u64 && r.a[1] == cfg_payload as u64 && r.a[2] == spec::rd32(&body, 8) as u64);
+                assert!(r.bytes[0] == body[12] && r.bytes[1] == body[13] && r.bytes[2] == body[14] && r.bytes[3] == body[15]);
+            }
+            fe::GET_INFLIGHT_FD | fe::SET_INFLIGHT_FD => {
+                assert!(r.a[0] == spec::rd64(&body, 0) && r.a[1] == spec::rd64(&body, 8));
+                assert!(r.a[2] == spec::rd16(&body, 16) as u64 && r.a[3] == spec::rd16(&body, 18) as u64);
+            }
+            fe::ADD_MEM_REG | fe::REM_MEM_REG => {
+                assert!(r.a[0] == spec::rd64(&body, 8) && r.a[1] == spec::rd64(&body, 16));
+                assert!(r.a[2] == spec::rd64(&body, 24) && r.a[3] == spec::rd64(&body, 32));
+            }
+            fe::GET_SHARED_OBJECT => assert!(r.a[0] == spec::rd64(&body, 0) && r.a[1] == spec::rd64(&body, 8)),
+            fe::SET_DEVICE_STATE_FD => assert!(r.a[0] == spec::rd32(&body, 0) as u64 && r.a[1] == spec::rd32(&body, 4) as u64),
+            fe::SET_LOG_BASE => assert!(r.a[0] == spec::rd64(&body, 0) && r.a[1] == spec::rd64(&body, 8)),
+            _ => {}
+        }
+        if matches!(code, fe::SET_INFLIGHT_FD | fe::ADD_MEM_REG | fe::SET_DEVICE_STATE_FD | fe::SET_LOG_BASE) {
+            assert!(r.nfiles == 1 && r.fd0 == g::FD_BASE, "C02: the single passed descriptor reaches the handler");
+        }
+    }
+
+    // ---- C04: next negotiation state
+    let (mut v2, mut av2, mut ap2) = (v, av, ap);
+    if r.calls == 1 {
+        match code {
+            fe::GET_FEATURES => if !script_fail { v2 = ret },
+            fe::SET_FEATURES => av2 = spec::rd64(&body, 0),
+            fe::SET_PROTOCOL_FEATURES => ap2 = spec::rd64(&body, 0),
+            _ => {}
+        }
+    }
+    assert!(h.virtio_features == v2 && h.acked_virtio_features == av2 && h.acked_protocol_features == ap2,
+        "C04: negotiation state after the request");
+    assert!(h.reply_ack_enabled == spec::reply_ack_on(v2, ap2), "C04: reply-ack invariant after the request");
+    // "has been negotiated": for the two messages that change the state the reference accepts the
+    // post-update state (DESIGN.md C04)
+    let ack_on = spec::reply_ack_on(v2, ap2);
+
+    // ---- C03 / C04: what was written
+    // SAFETY: reading ghost state
+    unsafe {
+        assert!(!g::G.blocked, "C04: read beyond the declared message size");
+        if wellformed {
+            assert!(g::G.rx_pos == 12 + size, "C04: consumed exactly header + declared size");
+        }
+        assert!(!g::G.tx_late_fds, "C01: descriptors only with the first byte");
+        let exp_reply: Option<usize> = if r.calls == 1 {
+            match code {
+                fe::GET_FEATURES | fe::GET_PROTOCOL_FEATURES | fe::GET_QUEUE_NUM | fe::GET_MAX_MEM_SLOTS
+                | fe::GET_VRING_BASE | fe::GET_INFLIGHT_FD | fe::SET_LOG_BASE | fe::GET_SHMEM_CONFIG => {
+                    if script_fail { None } else { spec::reply_size(code) }
+                }
+                // in-band failure encodings: a reply is due whatever the handler said
+                fe::GET_SHARED_OBJECT | fe::SET_DEVICE_STATE_FD | fe::CHECK_DEVICE_STATE => spec::reply_size(code),
+                fe::GET_CONFIG => {
+                    if !script_fail && ret_len == spec::rd32(&body, 4) as usize { Some(12 + ret_len) } else { Some(12) }
+                }
+                _ => if ack_on && need_reply { Some(8) } else { None },
+            }
+        } else {
+            None
+        };
+        match exp_reply {
+            // The property prescribes the output for well-formed requests only.  For a request that is
+            // rejected (handler not reached) the oracle accepts silence or - when an acknowledgement was
+            // requested under REPLY_ACK for a request without defined reply - one non-zero ack.
+            None if r.calls == 0 && ack_on && need_reply && spec::reply_size(code).is_none() && g::G.tx_len != 0 => {
+                assert!(g::G.tx_calls == 1 && g::G.tx_len == 20, "C04: at most one ack for a rejected request");
+                assert!(g::tx32(0) == code && g::tx32(4) == (spec::F_VERSION_1 | spec::F_REPLY) && g::tx32(8) == 8);
+                assert!(g::tx64(12) != 0, "C04: a rejected request must never be acknowledged with 0");
+                assert!(g::G.tx_first_nfds == 0);
+            }
+            None => assert!(g::G.tx_len == 0 && g::G.tx_calls == 0, "C04: nothing may be written"),
+            Some(n) => {
+                assert!(g::G.tx_calls == 1, "C04: exactly one reply");
+                assert!(g::G.tx_len == 12 + n, "C04: reply length");
+                assert!(g::tx32(0) == code, "C04: reply carries the request code");
+                assert!(g::tx32(4) == (spec::F_VERSION_1 | spec::F_REPLY), "C04: reply flags = version 1 | REPLY");
+                assert!(g::tx32(8) == n as u32, "C04: reply size field equals payload");
+                assert!(g::G.tx_call_at_rx_pos == 12 + size, "C04: reply written after the whole request was read");
+            }
+        }
+        // reply payloads (C03 backend half)
+        if let Some(_n) = exp_reply {
+            let mut exp_fds = 0usize;
+            match code {
+                fe::GET_FEATURES | fe::GET_QUEUE_NUM | fe::GET_MAX_MEM_SLOTS => assert!(g::tx64(12) == ret),
+                fe::GET_PROTOCOL_FEATURES => assert!(g::tx64(12) == (ret | spec::pf::REPLY_ACK), "C07: REPLY_ACK always offered"),
+                fe::GET_VRING_BASE => assert!(g::tx64(12) == ret),
+                fe::GET_INFLIGHT_FD => {
+                    assert!(g::tx64(12) == ret && g::tx64(20) == ret2);
+                    assert!(g::tx32(28) == ((ret_bytes[0] as u32 | 0x100) | ((ret_bytes[1] as u32 | 0x200) << 16)));
+                    exp_fds = 1;
+                }
+                fe::GET_SHARED_OBJECT => exp_fds = if script_fail { 0 } else { 1 },
+                fe::SET_DEVICE_STATE_FD => {
+                    let e = if script_fail { 0x101 } else if ret_file { 0 } else { 0x100 };
+                    assert!(g::tx64(12) == e, "C03: device-state reply value");
+                    exp_fds = if !script_fail && ret_file { 1 } else { 0 };
+                }
+                fe::CHECK_DEVICE_STATE => assert!((g::tx64(12) == 0) == !script_fail, "C03: 0 iff success"),
+                fe::SET_LOG_BASE => assert!(g::tx64(12) == spec::rd64(&body, 0) && g::tx64(20) == spec::rd64(&body, 8)),
+                fe::GET_SHMEM_CONFIG => {
+                    assert!(g::tx32(12) == ret as u32 && g::tx32(16) == 0);
+                    assert!(g::tx64(20) == ret2 && g::tx64(28) == !ret2 && g::tx64(36) == ret && g::tx64(44) == 0);
+                }
+                fe::GET_CONFIG => {
+                    assert!(g::tx32(12) == spec::rd32(&body, 0), "C03: config reply offset");
+                    assert!(g::tx32(20) == spec::rd32(&body, 8), "C03: config reply flags");
+                    if g::G.tx_len == 24 {
+                        assert!(g::tx32(16) == 0, "C03: zero size marks failure");
+                    } else {
+                        assert!(g::tx32(16) == ret_len as u32);
+                        assert!(g::tx8(24) == ret_bytes[0] && (ret_len < 4 || g::tx8(27) == ret_bytes[3]));
+                    }
+                }
+                _ => assert!((g::tx64(12) == 0) == !script_fail, "C04: ack is 0 iff the handler succeeded"),
+            }
+            assert!(g::G.tx_first_nfds == exp_fds, "C03: descriptor attached exactly when the reply defines one");
+            if exp_fds == 1 {
+                assert!(g::G.tx_first_fd0 == RET_FD, "C03: the handler's descriptor is the one sent");
+            }
+        }
+        // C03: result of handle_request
+        if r.calls == 1 && script_fail && !matches!(code, fe::GET_CONFIG | fe::GET_SHARED_OBJECT | fe::SET_DEVICE_STATE_FD | fe::CHECK_DEVICE_STATE) {
+            assert!(!ok, "C03: handler failure is reported to the serving loop");
+        }
+        if !wellformed {
+            assert!(!ok, "C05: malformed request must be rejected with an error");
+        }
+        // ---- C09: every installed descriptor owned by the handler or closed exactly once
+        assert!(!g::G.double_close, "C09: double close");
+        let mut k = 0;
+        while k < 2 {
+            if g::G.fd_state[k] != g::FD_FREE {
+                assert!((g::G.fd_owned[k] && g::G.fd_state[k] == g::FD_OPEN) || (!g::G.fd_owned[k] && g::G.fd_state[k] == g::FD_CLOSED),
+                    "C09: received descriptor neither handed over nor closed");
+            }
+            k += 1;
+        }
+        assert!(g::G.fd_state[0] != g::FD_FREE || nfds == 0, "descriptors were installed by the first receive");
+    }
+}
+
+macro_rules! e_be {
+    ($name:ident, $code:expr, $flags:expr, $delta:expr, $variant:expr) => {
+        #[kani::proof]
+        #[kani::unwind(5)]
+        #[kani::stub(vmm_sys_util::sock_ctrl_msg::raw_recvmsg, g::ghost_recvmsg)]
+        #[kani::stub(vmm_sys_util::sock_ctrl_msg::raw_sendmsg, g::ghost_sendmsg)]
+        #[kani::stub(libc::close, g::ghost_close)]
+        #[kani::stub(<std::os::fd::OwnedFd as std::ops::Drop>::drop, g::ghost_ownedfd_drop)]
+        #[kani::stub(std::alloc::handle_alloc_error, g::ghost_alloc_error)]
+        fn $name() {
+            e_backend($code, $flags, $delta, $variant)
+        }
+    };
+}
+
+
+
+// =============================================================== unit level (C05, C09)
+// Private helpers of the request server called directly with fully symbolic header words.
+macro_rules! u_stubs {
+    ($(#[$m:meta])* fn $name:ident() $body:block) => {
+        $(#[$m])*
+        #[kani::proof]
+        #[kani::unwind(7)]
+        #[kani::stub(libc::close, g::ghost_close)]
+        #[kani::stub(<std::os::fd::OwnedFd as std::ops::Drop>::drop, g::ghost_ownedfd_drop)]
+        #[kani::stub(std::alloc::handle_alloc_error, g::ghost_alloc_error)]
+        fn $name() $body
+    };
+}
+
+fn any_hdr() -> (VhostUserMsgHeader<FrontendReq>, u32, u32, u32) {
+    let code: u32 = kani::any();
+    let flags: u32 = kani::any();
+    let size: u32 = kani::any();
+    let mut b = [0u8; 12];
+    spec::wr32(&mut b, 0, code);
+    spec::wr32(&mut b, 4, flags);
+    spec::wr32(&mut b, 8, size);
+    // SAFETY: the header is 12 bytes of plain old data
+    (unsafe { core::ptr::read_unaligned(b.as_ptr() as *const VhostUserMsgHeader<FrontendReq>) }, code, flags, size)
+}
+
+/// 0..=n files with descriptor numbers 100.. (marked open in the ghost table)
+fn any_files(max: usize) -> (Option<Vec<File>>, usize) {
+    let n: usize = kani::any();
+    kani::assume(n <= max);
+    if n == 0 {
+        return (None, 0);
+    }
+    let mut v = Vec::with_capacity(3);
+    let mut k = 0;
+    while k < n {
+        // SAFETY: ghost descriptor numbers, never used for I/O
+        unsafe {
+            g::G.fd_state[k] = g::FD_OPEN;
+            v.push(File::from_raw_fd(g::FD_BASE + k as RawFd));
+        }
+        k += 1;
+    }
+    (Some(v), n)
+}
+
+// @harness props=C05 tier=quick bound="all header words (request code, flags, size: 2^96), all usize size/expected"
+u_stubs! { fn c05_u_check_request_size() {
+    let h = mk_handler(kani::any(), kani::any(), kani::any());
+    let (hdr, _code, flags, hsize) = any_hdr();
+    let size: usize = kani::any();
+    let expected: usize = kani::any();
+    let r = h.check_request_size(&hdr, size, expected);
+    let ok = r.is_ok();
+    std::mem::forget(r);
+    let exp = hsize as usize == expected && flags & spec::F_REPLY == 0 && flags & 3 == 1 && size == expected;
+    kani::cover!(ok);
+    assert!(ok == exp, "C05: request-size/flags check");
+} }
+
+// @harness props=C05,C09 tier=quick bound="all u32 request codes x 0..=2 attached files"
+u_stubs! { fn c05_u_check_attached_files() {
+    let h = mk_handler(kani::any(), kani::any(), kani::any());
+    let (hdr, code, _flags, _size) = any_hdr();
+    let (files, n) = any_files(2);
+    let r = h.check_attached_files(&hdr, &files);
+    let ok = r.is_ok();
+    std::mem::forget(r);
+    std::mem::forget(files);
+    // requests that may carry descriptors at all (the exact count is checked per request later)
+    let may_carry = spec::required_fds(code) != Some(0) && spec::frontend_code_known(code);
+    kani::cover!(ok && n > 0);
+    kani::cover!(!ok);
+    assert!(ok == (n == 0 || may_carry), "C05/C09: descriptors on a request that takes none are refused");
+} }
+
+macro_rules! u_extract {
+    ($name:ident, $t:ty, $n:expr, $valid:expr) => {
+        u_stubs! { fn $name() {
+            let h = mk_handler(kani::any(), kani::any(), kani::any());
+            let (hdr, _code, flags, hsize) = any_hdr();
+            let arr: [u8; $n + 1] = kani::any();
+            let size: usize = kani::any();
+            kani::assume(size <= $n + 1);
+            // invariant established by handle_request: the buffer holds exactly `size` received bytes
+            let buf = &arr[..size];
+            let r = h.extract_request_body::<$t>(&hdr, size, buf);
+            kani::cover!(r.is_ok());
+            if let Ok(msg) = &r {
+                assert!(hsize as usize == $n && size == $n, "C05: body accepted with a wrong size");
+                assert!(flags & spec::F_REPLY == 0 && flags & 3 == 1, "C05: body accepted with bad header flags");
+                let f: fn(&[u8]) -> bool = $valid;
+                assert!(f(&arr[..$n]), "C05: protocol-invalid body accepted");
+                // decoded value = the received bytes (C01 decode direction)
+                // SAFETY: $t is plain old data of $n bytes
+                let back: [u8; $n] = unsafe { core::mem::transmute_copy(msg) };
+                let mut i = 0;
+                while i < $n / 8 {
+                    assert!(spec::rd64(&back, 8 * i) == spec::rd64(&arr, 8 * i), "C01: decoded body differs from the wire bytes");
+                    i += 1;
+                }
+            } else {
+                let f: fn(&[u8]) -> bool = $valid;
+                let wf = hsize as usize == $n && size == $n && flags & spec::F_REPLY == 0 && flags & 3 == 1 && f(&arr[..$n]);
+                assert!(!wf, "C02: well-formed body rejected");
+            }
+            std::mem::forget(r);
+        } }
+    };
+}
+// @harness props=C05,C01 tier=quick bound="u64 body: all header words, size 0..=9, all body bytes"
+u_extract!(c05_u_extract_u64, VhostUserU64, 8, |_b| true);
+// @harness props=C05,C01 tier=quick bound="vring state body: all header words, size 0..=9, all body bytes"
+u_extract!(c05_u_extract_vring_state, VhostUserVringState, 8, |_b| true);
+// @harness props=C05,C01 tier=quick bound="vring addr body: all header words, size 0..=41, all body bytes"
+u_extract!(c05_u_extract_vring_addr, VhostUserVringAddr, 40, |b| spec::valid_vring_addr(b));
+// @harness props=C05,C01 tier=quick bound="inflight body: all header words, size 0..=25, all body bytes"
+u_extract!(c05_u_extract_inflight, VhostUserInflight, 24, |b| spec::valid_inflight(b));
+// @harness props=C05,C01 tier=quick bound="single region body: all header words, size 0..=41, all body bytes"
+u_extract!(c05_u_extract_single_region, VhostUserSingleMemoryRegion, 40, |b| spec::valid_single_region(b));
+// @harness props=C05,C01 tier=quick bound="log body: all header words, size 0..=17, all body bytes"
+u_extract!(c05_u_extract_log, VhostUserLog, 16, |b| spec::valid_log(b));
+// @harness props=C05,C01 tier=quick bound="shared-object body: all header words, size 0..=17, all body bytes"
+u_extract!(c05_u_extract_shared, VhostUserSharedMsg, 16, |b| spec::valid_shared(b));
+// @harness props=C05,C01 tier=quick bound="device-state body: all header words, size 0..=9, all body bytes"
+u_extract!(c05_u_extract_devstate, VhostUserTransferDeviceState, 8, |b| spec::valid_devstate(b));
+
+// @harness props=C05,C09 tier=quick bound="vring fd request: buffer 0..=9 bytes, all payload values, 0..=3 attached files"
+u_stubs! { fn c05_u_vring_fd_request() {
+    let mut h = mk_handler(kani::any(), kani::any(), kani::any());
+    let arr: [u8; 9] = kani::any();
+    let len: usize = kani::any();
+    kani::assume(len <= 9);
+    let (files, n) = any_files(3);
+    let r = h.handle_vring_fd_request(&arr[..len], files);
+    kani::cover!(r.is_ok() && n == 1);
+    kani::cover!(r.is_ok() && n == 0);
+    let v = spec::rd64(&arr, 0);
+    let nofd = v & 0x100 != 0;
+    match &r {
+        Ok((idx, f)) => {
+            assert!(len >= 8, "C05: short buffer accepted");
+            assert!(*idx as u64 == v & 0xff, "C02: ring index = low byte");
+            assert!(f.is_some() == !nofd, "C05: file present iff the no-fd bit is clear");
+            assert!(if nofd { n == 0 } else { n == 1 }, "C05: exactly the number of files the request prescribes");
+        }
+        Err(_) => assert!(len < 8 || (nofd && n != 0) || (!nofd && n != 1), "C02: well-formed vring fd request rejected"),
+    }
+    // C09: whatever was not handed out has been closed, nothing twice
+    let kept = matches!(&r, Ok((_, Some(_))));
+    std::mem::forget(r);
+    // SAFETY: reading ghost state
+    unsafe {
+        assert!(!g::G.double_close, "C09: double close");
+        let mut k = 0;
+        while k < 3 {
+            if k < n {
+                let open = g::G.fd_state[k] == g::FD_OPEN;
+                assert!(open == (kept && k == 0), "C09: every file not handed to the caller is closed");
+            }
+            k += 1;
+        }
+    }
+} }
+
+// @harness props=C05,C02 tier=quick bound="SET_MEM_TABLE helper: all header words, buffer/size 0..=73 bytes (<= 2 regions), all region values, 0..=3 files" timeout=600
+u_stubs! { fn c05_u_set_mem_table() {
+    let mut h = mk_handler(kani::any(), kani::any(), kani::any());
+    Rec::script();
+    let (hdr, _code, flags, hsize) = any_hdr();
+    let arr: [u8; 73] = kani::any();
+    let size: usize = kani::any();
+    kani::assume(size <= 73);
+    let (files, n) = any_files(3);
+    let r = h.set_mem_table(&hdr, size, &arr[..size], files);
+    std::mem::forget(r);
+    let rec = rd();
+    kani::cover!(rec.calls == 1 && rec.a[0] == 2);
+    let nreg = spec::rd32(&arr, 0) as usize;
+    let wf = hsize as usize == size && flags & spec::F_REPLY == 0 && flags & 3 == 1 && size >= 8
+        && spec::valid_memory(&arr) && size == 8 + 32 * nreg && n == nreg
+        && spec::valid_region(&arr, 8) && (nreg < 2 || spec::valid_region(&arr, 40));
+    assert!((rec.calls == 1) == wf, "C05/C02: handler reached exactly for valid memory tables");
+    if rec.calls == 1 {
+        assert!(rec.a[0] == nreg as u64 && rec.a[1] == nreg as u64);
+        assert!(rec.a[2] == spec::rd64(&arr, 8) && rec.a[3] == spec::rd64(&arr, 16) && rec.a[4] == spec::rd64(&arr, 24) && rec.a[5] == spec::rd64(&arr, 32));
+    }
+} }
+
+// @harness props=C05,C02 tier=quick bound="SET_CONFIG helper: size 0..=21 (payload <= 8), all config header values and payload bytes"
+u_stubs! { fn c05_u_set_config() {
+    let mut h = mk_handler(kani::any(), kani::any(), kani::any());
+    Rec::script();
+    let arr: [u8; 21] = kani::any();
+    let size: usize = kani::any();
+    kani::assume(size <= 21);
+    let r = h.set_config(size, &arr[..size]);
+    std::mem::forget(r);
+    let rec = rd();
+    kani::cover!(rec.calls == 1);
+    let wf = size >= 12 && spec::valid_config(&arr) && spec::rd32(&arr, 4) as usize == size - 12;
+    assert!((rec.calls == 1) == wf, "C05/C02: handler reached exactly for valid config writes");
+    if rec.calls == 1 {
+        assert!(rec.a[0] == spec::rd32(&arr, 0) as u64 && rec.a[1] == (size - 12) as u64 && rec.a[2] == spec::rd32(&arr, 8) as u64);
+        assert!(rec.nbytes == size - 12 && (size < 13 || rec.bytes[0] == arr[12]) && (size < 16 || rec.bytes[3] == arr[15]));
+    }
+} }
+
+// ==== generated by tools/gen_e_be.py ====
+// @harness props=C03,C04,C09 tier=quick reach=off timeout=400 bound="request 1 (GET_FEATURES), header flags 0x9 (version 1, NEED_REPLY), declared size = body size; body bytes, 0..=2 attached descriptors, three 64-bit negotiation words and handler outcome symbolic; one request" stubs="vmm-sys-util raw_recvmsg/raw_sendmsg (ghost stream socket), libc::close + OwnedFd::drop (ghost descriptor table), handle_alloc_error (assume false)"
+e_be!(e_be_get_features_nr, 1, 0x9, 0, 0);
+// @harness props=C03,C04,C09 tier=thorough reach=off timeout=400 bound="request 1 (GET_FEATURES), header flags 0x1 (version 1), declared size = body size; body bytes, 0..=2 attached descriptors, three 64-bit negotiation words and handler outcome symbolic; one request" stubs="vmm-sys-util raw_recvmsg/raw_sendmsg (ghost stream socket), libc::close + OwnedFd::drop (ghost descriptor table), handle_alloc_error (assume false)"
+e_be!(e_be_get_features_plain, 1, 0x1, 0, 0);
+// @harness props=C02,C03,C04 tier=quick reach=off timeout=400 bound="request 2 (SET_FEATURES), header flags 0x9 (version 1, NEED_REPLY), declared size = body size; body bytes, 0..=2 attached descriptors, three 64-bit negotiation words and handler outcome symbolic; one request" stubs="vmm-sys-util raw_recvmsg/raw_sendmsg (ghost stream socket), libc::close + OwnedFd::drop (ghost descriptor table), handle_alloc_error (assume false)"
+e_be!(e_be_set_features_nr, 2, 0x9, 0, 0);
+// @harness props=C02,C03,C04 tier=quick reach=off timeout=400 bound="request 2 (SET_FEATURES), header flags 0x1 (version 1), declared size = body size; body bytes, 0..=2 attached descriptors, three 64-bit negotiation words and handler outcome symbolic; one request" stubs="vmm-sys-util raw_recvmsg/raw_sendmsg (ghost stream socket), libc::close + OwnedFd::drop (ghost descriptor table), handle_alloc_error (assume false)"
+e_be!(e_be_set_features_plain, 2, 0x1, 0, 0);
+// @harness props=C03,C04 tier=quick reach=off timeout=400 bound="request 3 (SET_OWNER), header flags 0x9 (version 1, NEED_REPLY), declared size = body size; body bytes, 0..=2 attached descriptors, three 64-bit negotiation words and handler outcome symbolic; one request" stubs="vmm-sys-util raw_recvmsg/raw_sendmsg (ghost stream socket), libc::close + OwnedFd::drop (ghost descriptor table), handle_alloc_error (assume false)"
+e_be!(e_be_set_owner_nr, 3, 0x9, 0, 0);
+// @harness props=C03,C04 tier=thorough reach=off timeout=400 bound="request 3 (SET_OWNER), header flags 0x1 (version 1), declared size = body size; body bytes, 0..=2 attached descriptors, three 64-bit negotiation words and handler outcome symbolic; one request" stubs="vmm-sys-util raw_recvmsg/raw_sendmsg (ghost stream socket), libc::close + OwnedFd::drop (ghost descriptor table), handle_alloc_error (assume false)"
+e_be!(e_be_set_owner_plain, 3, 0x1, 0, 0);
+// @harness props=C04 tier=quick thorough_for=C04 reach=off timeout=400 bound="request 4 (RESET_OWNER), header flags 0x9 (version 1, NEED_REPLY), declared size = body size; body bytes, 0..=2 attached descriptors, three 64-bit negotiation words and handler outcome symbolic; one request" stubs="vmm-sys-util raw_recvmsg/raw_sendmsg (ghost stream socket), libc::close + OwnedFd::drop (ghost descriptor table), handle_alloc_error (assume false)"
+e_be!(e_be_reset_owner_nr, 4, 0x9, 0, 0);
+// @harness props=C04 tier=thorough reach=off timeout=400 bound="request 4 (RESET_OWNER), header flags 0x1 (version 1), declared size = body size; body bytes, 0..=2 attached descriptors, three 64-bit negotiation words and handler outcome symbolic; one request" stubs="vmm-sys-util raw_recvmsg/raw_sendmsg (ghost stream socket), libc::close + OwnedFd::drop (ghost descriptor table), handle_alloc_error (assume false)"
+e_be!(e_be_reset_owner_plain, 4, 0x1, 0, 0);
+// @harness props=C02,C04,C05,C09 tier=quick reach=off timeout=400 bound="request 5 (SET_MEM_TABLE), header flags 0x9 (version 1, NEED_REPLY), declared size = body size; body bytes, 0..=2 attached descriptors, three 64-bit negotiation words and handler outcome symbolic; one request" stubs="vmm-sys-util raw_recvmsg/raw_sendmsg (ghost stream socket), libc::close + OwnedFd::drop (ghost descriptor table), handle_alloc_error (assume false)"
+e_be!(e_be_set_mem_table_v1_nr, 5, 0x9, 0, 1);
+// @harness props=C02,C04,C05,C09 tier=thorough reach=off timeout=400 bound="request 5 (SET_MEM_TABLE), header flags 0x1 (version 1), declared size = body size; body bytes, 0..=2 attached descriptors, three 64-bit negotiation words and handler outcome symbolic; one request" stubs="vmm-sys-util raw_recvmsg/raw_sendmsg (ghost stream socket), libc::close + OwnedFd::drop (ghost descriptor table), handle_alloc_error (assume false)"
+e_be!(e_be_set_mem_table_v1_plain, 5, 0x1, 0, 1);
+// @harness props=C02,C04,C05,C09 tier=thorough reach=off timeout=400 bound="request 5 (SET_MEM_TABLE), header flags 0x9 (version 1, NEED_REPLY), declared size = body size; body bytes, 0..=2 attached descriptors, three 64-bit negotiation words and handler outcome symbolic; one request" stubs="vmm-sys-util raw_recvmsg/raw_sendmsg (ghost stream socket), libc::close + OwnedFd::drop (ghost descriptor table), handle_alloc_error (assume false)"
+e_be!(e_be_set_mem_table_v2_nr, 5, 0x9, 0, 2);
+// @harness props=C02,C04,C05,C09 tier=thorough reach=off timeout=400 bound="request 5 (SET_MEM_TABLE), header flags 0x1 (version 1), declared size = body size; body bytes, 0..=2 attached descriptors, three 64-bit negotiation words and handler outcome symbolic; one request" stubs="vmm-sys-util raw_recvmsg/raw_sendmsg (ghost stream socket), libc::close + OwnedFd::drop (ghost descriptor table), handle_alloc_error (assume false)"
+e_be!(e_be_set_mem_table_v2_plain, 5, 0x1, 0, 2);
+// @harness props=C02,C03,C04,C05,C07,C09 tier=quick reach=off timeout=400 bound="request 6 (SET_LOG_BASE), header flags 0x9 (version 1, NEED_REPLY), declared size = body size; body bytes, 0..=2 attached descriptors, three 64-bit negotiation words and handler outcome symbolic; one request" stubs="vmm-sys-util raw_recvmsg/raw_sendmsg (ghost stream socket), libc::close + OwnedFd::drop (ghost descriptor table), handle_alloc_error (assume false)"
+e_be!(e_be_set_log_base_nr, 6, 0x9, 0, 0);
+// @harness props=C02,C03,C04,C05,C07,C09 tier=thorough reach=off timeout=400 bound="request 6 (SET_LOG_BASE), header flags 0x1 (version 1), declared size = body size; body bytes, 0..=2 attached descriptors, three 64-bit negotiation words and handler outcome symbolic; one request" stubs="vmm-sys-util raw_recvmsg/raw_sendmsg (ghost stream socket), libc::close + OwnedFd::drop (ghost descriptor table), handle_alloc_error (assume false)"
+e_be!(e_be_set_log_base_plain, 6, 0x1, 0, 0);
+// @harness props=C02,C03,C04,C09 tier=quick reach=off timeout=400 bound="request 8 (SET_VRING_NUM), header flags 0x9 (version 1, NEED_REPLY), declared size = body size; body bytes, 0..=2 attached descriptors, three 64-bit negotiation words and handler outcome symbolic; one request" stubs="vmm-sys-util raw_recvmsg/raw_sendmsg (ghost stream socket), libc::close + OwnedFd::drop (ghost descriptor table), handle_alloc_error (assume false)"
+e_be!(e_be_set_vring_num_nr, 8, 0x9, 0, 0);
+// @harness props=C02,C03,C04,C09 tier=thorough reach=off timeout=400 bound="request 8 (SET_VRING_NUM), header flags 0x1 (version 1), declared size = body size; body bytes, 0..=2 attached descriptors, three 64-bit negotiation words and handler outcome symbolic; one request" stubs="vmm-sys-util raw_recvmsg/raw_sendmsg (ghost stream socket), libc::close + OwnedFd::drop (ghost descriptor table), handle_alloc_error (assume false)"
+e_be!(e_be_set_vring_num_plain, 8, 0x1, 0, 0);
+// @harness props=C02,C04,C05 tier=quick thorough_for=C04 reach=off timeout=400 bound="request 9 (SET_VRING_ADDR), header flags 0x9 (version 1, NEED_REPLY), declared size = body size; body bytes, 0..=2 attached descriptors, three 64-bit negotiation words and handler outcome symbolic; one request" stubs="vmm-sys-util raw_recvmsg/raw_sendmsg (ghost stream socket), libc::close + OwnedFd::drop (ghost descriptor table), handle_alloc_error (assume false)"
+e_be!(e_be_set_vring_addr_nr, 9, 0x9, 0, 0);
+// @harness props=C02,C04,C05 tier=thorough reach=off timeout=400 bound="request 9 (SET_VRING_ADDR), header flags 0x1 (version 1), declared size = body size; body bytes, 0..=2 attached descriptors, three 64-bit negotiation words and handler outcome symbolic; one request" stubs="vmm-sys-util raw_recvmsg/raw_sendmsg (ghost stream socket), libc::close + OwnedFd::drop (ghost descriptor table), handle_alloc_error (assume false)"
+e_be!(e_be_set_vring_addr_plain, 9, 0x1, 0, 0);
+// @harness props=C02,C04 tier=quick thorough_for=C04 reach=off timeout=400 bound="request 10 (SET_VRING_BASE), header flags 0x9 (version 1, NEED_REPLY), declared size = body size; body bytes, 0..=2 attached descriptors, three 64-bit negotiation words and handler outcome symbolic; one request" stubs="vmm-sys-util raw_recvmsg/raw_sendmsg (ghost stream socket), libc::close + OwnedFd::drop (ghost descriptor table), handle_alloc_error (assume false)"
+e_be!(e_be_set_vring_base_nr, 10, 0x9, 0, 0);
+// @harness props=C02,C04 tier=thorough reach=off timeout=400 bound="request 10 (SET_VRING_BASE), header flags 0x1 (version 1), declared size = body size; body bytes, 0..=2 attached descriptors, three 64-bit negotiation words and handler outcome symbolic; one request" stubs="vmm-sys-util raw_recvmsg/raw_sendmsg (ghost stream socket), libc::close + OwnedFd::drop (ghost descriptor table), handle_alloc_error (assume false)"
+e_be!(e_be_set_vring_base_plain, 10, 0x1, 0, 0);
+// @harness props=C02,C03,C04 tier=quick reach=off timeout=400 bound="request 11 (GET_VRING_BASE), header flags 0x9 (version 1, NEED_REPLY), declared size = body size; body bytes, 0..=2 attached descriptors, three 64-bit negotiation words and handler outcome symbolic; one request" stubs="vmm-sys-util raw_recvmsg/raw_sendmsg (ghost stream socket), libc::close + OwnedFd::drop (ghost descriptor table), handle_alloc_error (assume false)"
+e_be!(e_be_get_vring_base_nr, 11, 0x9, 0, 0);
+// @harness props=C02,C03,C04 tier=thorough reach=off timeout=400 bound="request 11 (GET_VRING_BASE), header flags 0x1 (version 1), declared size = body size; body bytes, 0..=2 attached descriptors, three 64-bit negotiation words and handler outcome symbolic; one request" stubs="vmm-sys-util raw_recvmsg/raw_sendmsg (ghost stream socket), libc::close + OwnedFd::drop (ghost descriptor table), handle_alloc_error (assume false)"
+e_be!(e_be_get_vring_base_plain, 11, 0x1, 0, 0);
+// @harness props=C02,C04,C05,C09 tier=quick reach=off timeout=400 bound="request 12 (SET_VRING_KICK), header flags 0x9 (version 1, NEED_REPLY), declared size = body size; body bytes, 0..=2 attached descriptors, three 64-bit negotiation words and handler outcome symbolic; one request" stubs="vmm-sys-util raw_recvmsg/raw_sendmsg (ghost stream socket), libc::close + OwnedFd::drop (ghost descriptor table), handle_alloc_error (assume false)"
+e_be!(e_be_set_vring_kick_nr, 12, 0x9, 0, 0);
+// @harness props=C02,C04,C05,C09 tier=quick reach=off timeout=400 bound="request 12 (SET_VRING_KICK), header flags 0x1 (version 1), declared size = body size; body bytes, 0..=2 attached descriptors, three 64-bit negotiation words and handler outcome symbolic; one request" stubs="vmm-sys-util raw_recvmsg/raw_sendmsg (ghost stream socket), libc::close + OwnedFd::drop (ghost descriptor table), handle_alloc_error (assume false)"
+e_be!(e_be_set_vring_kick_plain, 12, 0x1, 0, 0);
+// @harness props=C02,C04,C05,C09 tier=quick thorough_for=C04 reach=off timeout=400 bound="request 13 (SET_VRING_CALL), header flags 0x9 (version 1, NEED_REPLY), declared size = body size; body bytes, 0..=2 attached descriptors, three 64-bit negotiation words and handler outcome symbolic; one request" stubs="vmm-sys-util raw_recvmsg/raw_sendmsg (ghost stream socket), libc::close + OwnedFd::drop (ghost descriptor table), handle_alloc_error (assume false)"
+e_be!(e_be_set_vring_call_nr, 13, 0x9, 0, 0);
+// @harness props=C02,C04,C05,C09 tier=thorough reach=off timeout=400 bound="request 13 (SET_VRING_CALL), header flags 0x1 (version 1), declared size = body size; body bytes, 0..=2 attached descriptors, three 64-bit negotiation words and handler outcome symbolic; one request" stubs="vmm-sys-util raw_recvmsg/raw_sendmsg (ghost stream socket), libc::close + OwnedFd::drop (ghost descriptor table), handle_alloc_error (assume false)"
+e_be!(e_be_set_vring_call_plain, 13, 0x1, 0, 0);
+// @harness props=C02,C04,C05,C09 tier=quick thorough_for=C04 reach=off timeout=400 bound="request 14 (SET_VRING_ERR), header flags 0x9 (version 1, NEED_REPLY), declared size = body size; body bytes, 0..=2 attached descriptors, three 64-bit negotiation words and handler outcome symbolic; one request" stubs="vmm-sys-util raw_recvmsg/raw_sendmsg (ghost stream socket), libc::close + OwnedFd::drop (ghost descriptor table), handle_alloc_error (assume false)"
+e_be!(e_be_set_vring_err_nr, 14, 0x9, 0, 0);
+// @harness props=C02,C04,C05,C09 tier=thorough reach=off timeout=400 bound="request 14 (SET_VRING_ERR), header flags 0x1 (version 1), declared size = body size; body bytes, 0..=2 attached descriptors, three 64-bit negotiation words and handler outcome symbolic; one request" stubs="vmm-sys-util raw_recvmsg/raw_sendmsg (ghost stream socket), libc::close + OwnedFd::drop (ghost descriptor table), handle_alloc_error (assume false)"
+e_be!(e_be_set_vring_err_plain, 14, 0x1, 0, 0);
+// @harness props=C03,C04,C07 tier=quick reach=off timeout=400 bound="request 15 (GET_PROTOCOL_FEATURES), header flags 0x9 (version 1, NEED_REPLY), declared size = body size; body bytes, 0..=2 attached descriptors, three 64-bit negotiation words and handler outcome symbolic; one request" stubs="vmm-sys-util raw_recvmsg/raw_sendmsg (ghost stream socket), libc::close + OwnedFd::drop (ghost descriptor table), handle_alloc_error (assume false)"
+e_be!(e_be_get_protocol_features_nr, 15, 0x9, 0, 0);
+// @harness props=C03,C04,C07 tier=thorough reach=off timeout=400 bound="request 15 (GET_PROTOCOL_FEATURES), header flags 0x1 (version 1), declared size = body size; body bytes, 0..=2 attached descriptors, three 64-bit negotiation words and handler outcome symbolic; one request" stubs="vmm-sys-util raw_recvmsg/raw_sendmsg (ghost stream socket), libc::close + OwnedFd::drop (ghost descriptor table), handle_alloc_error (assume false)"
+e_be!(e_be_get_protocol_features_plain, 15, 0x1, 0, 0);
+// @harness props=C02,C04 tier=quick reach=off timeout=400 bound="request 16 (SET_PROTOCOL_FEATURES), header flags 0x9 (version 1, NEED_REPLY), declared size = body size; body bytes, 0..=2 attached descriptors, three 64-bit negotiation words and handler outcome symbolic; one request" stubs="vmm-sys-util raw_recvmsg/raw_sendmsg (ghost stream socket), libc::close + OwnedFd::drop (ghost descriptor table), handle_alloc_error (assume false)"
+e_be!(e_be_set_protocol_features_nr, 16, 0x9, 0, 0);
+// @harness props=C02,C04 tier=quick reach=off timeout=400 bound="request 16 (SET_PROTOCOL_FEATURES), header flags 0x1 (version 1), declared size = body size; body bytes, 0..=2 attached descriptors, three 64-bit negotiation words and handler outcome symbolic; one request" stubs="vmm-sys-util raw_recvmsg/raw_sendmsg (ghost stream socket), libc::close + OwnedFd::drop (ghost descriptor table), handle_alloc_error (assume false)"
+e_be!(e_be_set_protocol_features_plain, 16, 0x1, 0, 0);
+// @harness props=C03,C04,C07 tier=quick thorough_for=C04 reach=off timeout=400 bound="request 17 (GET_QUEUE_NUM), header flags 0x9 (version 1, NEED_REPLY), declared size = body size; body bytes, 0..=2 attached descriptors, three 64-bit negotiation words and handler outcome symbolic; one request" stubs="vmm-sys-util raw_recvmsg/raw_sendmsg (ghost stream socket), libc::close + OwnedFd::drop (ghost descriptor table), handle_alloc_error (assume false)"
+e_be!(e_be_get_queue_num_nr, 17, 0x9, 0, 0);
+// @harness props=C03,C04,C07 tier=thorough reach=off timeout=400 bound="request 17 (GET_QUEUE_NUM), header flags 0x1 (version 1), declared size = body size; body bytes, 0..=2 attached descriptors, three 64-bit negotiation words and handler outcome symbolic; one request" stubs="vmm-sys-util raw_recvmsg/raw_sendmsg (ghost stream socket), libc::close + OwnedFd::drop (ghost descriptor table), handle_alloc_error (assume false)"
+e_be!(e_be_get_queue_num_plain, 17, 0x1, 0, 0);
+// @harness props=C02,C04,C05,C07 tier=quick reach=off timeout=400 bound="request 18 (SET_VRING_ENABLE), header flags 0x9 (version 1, NEED_REPLY), declared size = body size; body bytes, 0..=2 attached descriptors, three 64-bit negotiation words and handler outcome symbolic; one request" stubs="vmm-sys-util raw_recvmsg/raw_sendmsg (ghost stream socket), libc::close + OwnedFd::drop (ghost descriptor table), handle_alloc_error (assume false)"
+e_be!(e_be_set_vring_enable_nr, 18, 0x9, 0, 0);
+// @harness props=C02,C04,C05,C07 tier=thorough reach=off timeout=400 bound="request 18 (SET_VRING_ENABLE), header flags 0x1 (version 1), declared size = body size; body bytes, 0..=2 attached descriptors, three 64-bit negotiation words and handler outcome symbolic; one request" stubs="vmm-sys-util raw_recvmsg/raw_sendmsg (ghost stream socket), libc::close + OwnedFd::drop (ghost descriptor table), handle_alloc_error (assume false)"
+e_be!(e_be_set_vring_enable_plain, 18, 0x1, 0, 0);
+// @harness props=C02,C04,C05,C07,C09 tier=quick thorough_for=C04 reach=off timeout=400 bound="request 21 (SET_BACKEND_REQ_FD), header flags 0x9 (version 1, NEED_REPLY), declared size = body size; body bytes, 0..=2 attached descriptors, three 64-bit negotiation words and handler outcome symbolic; one request" stubs="vmm-sys-util raw_recvmsg/raw_sendmsg (ghost stream socket), libc::close + OwnedFd::drop (ghost descriptor table), handle_alloc_error (assume false)"
+e_be!(e_be_set_backend_req_fd_nr, 21, 0x9, 0, 0);
+// @harness props=C02,C04,C05,C07,C09 tier=thorough reach=off timeout=400 bound="request 21 (SET_BACKEND_REQ_FD), header flags 0x1 (version 1), declared size = body size; body bytes, 0..=2 attached descriptors, three 64-bit negotiation words and handler outcome symbolic; one request" stubs="vmm-sys-util raw_recvmsg/raw_sendmsg (ghost stream socket), libc::close + OwnedFd::drop (ghost descriptor table), handle_alloc_error (assume false)"
+e_be!(e_be_set_backend_req_fd_plain, 21, 0x1, 0, 0);
+// @harness props=C02,C03,C04,C05,C07 tier=quick reach=off timeout=400 bound="request 24 (GET_CONFIG), header flags 0x9 (version 1, NEED_REPLY), declared size = body size; body bytes, 0..=2 attached descriptors, three 64-bit negotiation words and handler outcome symbolic; one request" stubs="vmm-sys-util raw_recvmsg/raw_sendmsg (ghost stream socket), libc::close + OwnedFd::drop (ghost descriptor table), handle_alloc_error (assume false)"
+e_be!(e_be_get_config_ret4_nr, 24, 0x9, 0, 68);
+// @harness props=C02,C03,C04,C05,C07 tier=thorough reach=off timeout=400 bound="request 24 (GET_CONFIG), header flags 0x1 (version 1), declared size = body size; body bytes, 0..=2 attached descriptors, three 64-bit negotiation words and handler outcome symbolic; one request" stubs="vmm-sys-util raw_recvmsg/raw_sendmsg (ghost stream socket), libc::close + OwnedFd::drop (ghost descriptor table), handle_alloc_error (assume false)"
+e_be!(e_be_get_config_ret4_plain, 24, 0x1, 0, 68);
+// @harness props=C02,C03,C04,C05,C07 tier=thorough reach=off timeout=400 bound="request 24 (GET_CONFIG), header flags 0x9 (version 1, NEED_REPLY), declared size = body size; body bytes, 0..=2 attached descriptors, three 64-bit negotiation words and handler outcome symbolic; one request" stubs="vmm-sys-util raw_recvmsg/raw_sendmsg (ghost stream socket), libc::close + OwnedFd::drop (ghost descriptor table), handle_alloc_error (assume false)"
+e_be!(e_be_get_config_ret3_nr, 24, 0x9, 0, 52);
+// @harness props=C02,C03,C04,C05,C07 tier=thorough reach=off timeout=400 bound="request 24 (GET_CONFIG), header flags 0x1 (version 1), declared size = body size; body bytes, 0..=2 attached descriptors, three 64-bit negotiation words and handler outcome symbolic; one request" stubs="vmm-sys-util raw_recvmsg/raw_sendmsg (ghost stream socket), libc::close + OwnedFd::drop (ghost descriptor table), handle_alloc_error (assume false)"
+e_be!(e_be_get_config_ret3_plain, 24, 0x1, 0, 52);
+// @harness props=C02,C03,C04,C05,C07 tier=quick reach=off timeout=400 bound="request 24 (GET_CONFIG), header flags 0x9 (version 1, NEED_REPLY), declared size = body size; body bytes, 0..=2 attached descriptors, three 64-bit negotiation words and handler outcome symbolic; one request" stubs="vmm-sys-util raw_recvmsg/raw_sendmsg (ghost stream socket), libc::close + OwnedFd::drop (ghost descriptor table), handle_alloc_error (assume false)"
+e_be!(e_be_get_config_fail_nr, 24, 0x9, 0, 324);
+// @harness props=C02,C03,C04,C05,C07 tier=thorough reach=off timeout=400 bound="request 24 (GET_CONFIG), header flags 0x1 (version 1), declared size = body size; body bytes, 0..=2 attached descriptors, three 64-bit negotiation words and handler outcome symbolic; one request" stubs="vmm-sys-util raw_recvmsg/raw_sendmsg (ghost stream socket), libc::close + OwnedFd::drop (ghost descriptor table), handle_alloc_error (assume false)"
+e_be!(e_be_get_config_fail_plain, 24, 0x1, 0, 324);
+// @harness props=C02,C04,C05,C07 tier=quick reach=off timeout=400 bound="request 25 (SET_CONFIG), header flags 0x9 (version 1, NEED_REPLY), declared size = body size; body bytes, 0..=2 attached descriptors, three 64-bit negotiation words and handler outcome symbolic; one request" stubs="vmm-sys-util raw_recvmsg/raw_sendmsg (ghost stream socket), libc::close + OwnedFd::drop (ghost descriptor table), handle_alloc_error (assume false)"
+e_be!(e_be_set_config_nr, 25, 0x9, 0, 4);
+// @harness props=C02,C04,C05,C07 tier=thorough reach=off timeout=400 bound="request 25 (SET_CONFIG), header flags 0x1 (version 1), declared size = body size; body bytes, 0..=2 attached descriptors, three 64-bit negotiation words and handler outcome symbolic; one request" stubs="vmm-sys-util raw_recvmsg/raw_sendmsg (ghost stream socket), libc::close + OwnedFd::drop (ghost descriptor table), handle_alloc_error (assume false)"
+e_be!(e_be_set_config_plain, 25, 0x1, 0, 4);
+// @harness props=C02,C03,C04,C05,C07 tier=quick thorough_for=C04 reach=off timeout=400 bound="request 31 (GET_INFLIGHT_FD), header flags 0x9 (version 1, NEED_REPLY), declared size = body size; body bytes, 0..=2 attached descriptors, three 64-bit negotiation words and handler outcome symbolic; one request" stubs="vmm-sys-util raw_recvmsg/raw_sendmsg (ghost stream socket), libc::close + OwnedFd::drop (ghost descriptor table), handle_alloc_error (assume false)"
+e_be!(e_be_get_inflight_fd_nr, 31, 0x9, 0, 0);
+// @harness props=C02,C03,C04,C05,C07 tier=thorough reach=off timeout=400 bound="request 31 (GET_INFLIGHT_FD), header flags 0x1 (version 1), declared size = body size; body bytes, 0..=2 attached descriptors, three 64-bit negotiation words and handler outcome symbolic; one request" stubs="vmm-sys-util raw_recvmsg/raw_sendmsg (ghost stream socket), libc::close + OwnedFd::drop (ghost descriptor table), handle_alloc_error (assume false)"
+e_be!(e_be_get_inflight_fd_plain, 31, 0x1, 0, 0);
+// @harness props=C02,C04,C05,C07,C09 tier=quick thorough_for=C04 reach=off timeout=400 bound="request 32 (SET_INFLIGHT_FD), header flags 0x9 (version 1, NEED_REPLY), declared size = body size; body bytes, 0..=2 attached descriptors, three 64-bit negotiation words and handler outcome symbolic; one request" stubs="vmm-sys-util raw_recvmsg/raw_sendmsg (ghost stream socket), libc::close + OwnedFd::drop (ghost descriptor table), handle_alloc_error (assume false)"
+e_be!(e_be_set_inflight_fd_nr, 32, 0x9, 0, 0);
+// @harness props=C02,C04,C05,C07,C09 tier=thorough reach=off timeout=400 bound="request 32 (SET_INFLIGHT_FD), header flags 0x1 (version 1), declared size = body size; body bytes, 0..=2 attached descriptors, three 64-bit negotiation words and handler outcome symbolic; one request" stubs="vmm-sys-util raw_recvmsg/raw_sendmsg (ghost stream socket), libc::close + OwnedFd::drop (ghost descriptor table), handle_alloc_error (assume false)"
+e_be!(e_be_set_inflight_fd_plain, 32, 0x1, 0, 0);
+// @harness props=C02,C04,C05,C09 tier=quick thorough_for=C04 reach=off timeout=400 bound="request 33 (GPU_SET_SOCKET), header flags 0x9 (version 1, NEED_REPLY), declared size = body size; body bytes, 0..=2 attached descriptors, three 64-bit negotiation words and handler outcome symbolic; one request" stubs="vmm-sys-util raw_recvmsg/raw_sendmsg (ghost stream socket), libc::close + OwnedFd::drop (ghost descriptor table), handle_alloc_error (assume false)"
+e_be!(e_be_gpu_set_socket_nr, 33, 0x9, 0, 0);
+// @harness props=C02,C04,C05,C09 tier=thorough reach=off timeout=400 bound="request 33 (GPU_SET_SOCKET), header flags 0x1 (version 1), declared size = body size; body bytes, 0..=2 attached descriptors, three 64-bit negotiation words and handler outcome symbolic; one request" stubs="vmm-sys-util raw_recvmsg/raw_sendmsg (ghost stream socket), libc::close + OwnedFd::drop (ghost descriptor table), handle_alloc_error (assume false)"
+e_be!(e_be_gpu_set_socket_plain, 33, 0x1, 0, 0);
+// @harness props=C03,C04,C07 tier=quick reach=off timeout=400 bound="request 34 (RESET_DEVICE), header flags 0x9 (version 1, NEED_REPLY), declared size = body size; body bytes, 0..=2 attached descriptors, three 64-bit negotiation words and handler outcome symbolic; one request" stubs="vmm-sys-util raw_recvmsg/raw_sendmsg (ghost stream socket), libc::close + OwnedFd::drop (ghost descriptor table), handle_alloc_error (assume false)"
+e_be!(e_be_reset_device_nr, 34, 0x9, 0, 0);
+// @harness props=C03,C04,C07 tier=thorough reach=off timeout=400 bound="request 34 (RESET_DEVICE), header flags 0x1 (version 1), declared size = body size; body bytes, 0..=2 attached descriptors, three 64-bit negotiation words and handler outcome symbolic; one request" stubs="vmm-sys-util raw_recvmsg/raw_sendmsg (ghost stream socket), libc::close + OwnedFd::drop (ghost descriptor table), handle_alloc_error (assume false)"
+e_be!(e_be_reset_device_plain, 34, 0x1, 0, 0);
+// @harness props=C03,C04,C07 tier=quick thorough_for=C04 reach=off timeout=400 bound="request 36 (GET_MAX_MEM_SLOTS), header flags 0x9 (version 1, NEED_REPLY), declared size = body size; body bytes, 0..=2 attached descriptors, three 64-bit negotiation words and handler outcome symbolic; one request" stubs="vmm-sys-util raw_recvmsg/raw_sendmsg (ghost stream socket), libc::close + OwnedFd::drop (ghost descriptor table), handle_alloc_error (assume false)"
+e_be!(e_be_get_max_mem_slots_nr, 36, 0x9, 0, 0);
+// @harness props=C03,C04,C07 tier=thorough reach=off timeout=400 bound="request 36 (GET_MAX_MEM_SLOTS), header flags 0x1 (version 1), declared size = body size; body bytes, 0..=2 attached descriptors, three 64-bit negotiation words and handler outcome symbolic; one request" stubs="vmm-sys-util raw_recvmsg/raw_sendmsg (ghost stream socket), libc::close + OwnedFd::drop (ghost descriptor table), handle_alloc_error (assume false)"
+e_be!(e_be_get_max_mem_slots_plain, 36, 0x1, 0, 0);
+// @harness props=C02,C04,C05,C07,C09 tier=quick reach=off timeout=400 bound="request 37 (ADD_MEM_REG), header flags 0x9 (version 1, NEED_REPLY), declared size = body size; body bytes, 0..=2 attached descriptors, three 64-bit negotiation words and handler outcome symbolic; one request" stubs="vmm-sys-util raw_recvmsg/raw_sendmsg (ghost stream socket), libc::close + OwnedFd::drop (ghost descriptor table), handle_alloc_error (assume false)"
+e_be!(e_be_add_mem_reg_nr, 37, 0x9, 0, 0);
+// @harness props=C02,C04,C05,C07,C09 tier=thorough reach=off timeout=400 bound="request 37 (ADD_MEM_REG), header flags 0x1 (version 1), declared size = body size; body bytes, 0..=2 attached descriptors, three 64-bit negotiation words and handler outcome symbolic; one request" stubs="vmm-sys-util raw_recvmsg/raw_sendmsg (ghost stream socket), libc::close + OwnedFd::drop (ghost descriptor table), handle_alloc_error (assume false)"
+e_be!(e_be_add_mem_reg_plain, 37, 0x1, 0, 0);
+// @harness props=C02,C04,C05,C07 tier=quick thorough_for=C04 reach=off timeout=400 bound="request 38 (REM_MEM_REG), header flags 0x9 (version 1, NEED_REPLY), declared size = body size; body bytes, 0..=2 attached descriptors, three 64-bit negotiation words and handler outcome symbolic; one request" stubs="vmm-sys-util raw_recvmsg/raw_sendmsg (ghost stream socket), libc::close + OwnedFd::drop (ghost descriptor table), handle_alloc_error (assume false)"
+e_be!(e_be_rem_mem_reg_nr, 38, 0x9, 0, 0);
+// @harness props=C02,C04,C05,C07 tier=thorough reach=off timeout=400 bound="request 38 (REM_MEM_REG), header flags 0x1 (version 1), declared size = body size; body bytes, 0..=2 attached descriptors, three 64-bit negotiation words and handler outcome symbolic; one request" stubs="vmm-sys-util raw_recvmsg/raw_sendmsg (ghost stream socket), libc::close + OwnedFd::drop (ghost descriptor table), handle_alloc_error (assume false)"
+e_be!(e_be_rem_mem_reg_plain, 38, 0x1, 0, 0);
+// @harness props=C02,C03,C04,C05,C07 tier=quick reach=off timeout=400 bound="request 41 (GET_SHARED_OBJECT), header flags 0x9 (version 1, NEED_REPLY), declared size = body size; body bytes, 0..=2 attached descriptors, three 64-bit negotiation words and handler outcome symbolic; one request" stubs="vmm-sys-util raw_recvmsg/raw_sendmsg (ghost stream socket), libc::close + OwnedFd::drop (ghost descriptor table), handle_alloc_error (assume false)"
+e_be!(e_be_get_shared_object_nr, 41, 0x9, 0, 0);
+// @harness props=C02,C03,C04,C05,C07 tier=thorough reach=off timeout=400 bound="request 41 (GET_SHARED_OBJECT), header flags 0x1 (version 1), declared size = body size; body bytes, 0..=2 attached descriptors, three 64-bit negotiation words and handler outcome symbolic; one request" stubs="vmm-sys-util raw_recvmsg/raw_sendmsg (ghost stream socket), libc::close + OwnedFd::drop (ghost descriptor table), handle_alloc_error (assume false)"
+e_be!(e_be_get_shared_object_plain, 41, 0x1, 0, 0);
+// @harness props=C02,C03,C04,C05,C09 tier=quick reach=off timeout=400 bound="request 42 (SET_DEVICE_STATE_FD), header flags 0x9 (version 1, NEED_REPLY), declared size = body size; body bytes, 0..=2 attached descriptors, three 64-bit negotiation words and handler outcome symbolic; one request" stubs="vmm-sys-util raw_recvmsg/raw_sendmsg (ghost stream socket), libc::close + OwnedFd::drop (ghost descriptor table), handle_alloc_error (assume false)"
+e_be!(e_be_set_device_state_fd_nr, 42, 0x9, 0, 0);
+// @harness props=C02,C03,C04,C05,C09 tier=thorough reach=off timeout=400 bound="request 42 (SET_DEVICE_STATE_FD), header flags 0x1 (version 1), declared size = body size; body bytes, 0..=2 attached descriptors, three 64-bit negotiation words and handler outcome symbolic; one request" stubs="vmm-sys-util raw_recvmsg/raw_sendmsg (ghost stream socket), libc::close + OwnedFd::drop (ghost descriptor table), handle_alloc_error (assume false)"
+e_be!(e_be_set_device_state_fd_plain, 42, 0x1, 0, 0);
+// @harness props=C03,C04 tier=quick reach=off timeout=400 bound="request 43 (CHECK_DEVICE_STATE), header flags 0x9 (version 1, NEED_REPLY), declared size = body size; body bytes, 0..=2 attached descriptors, three 64-bit negotiation words and handler outcome symbolic; one request" stubs="vmm-sys-util raw_recvmsg/raw_sendmsg (ghost stream socket), libc::close + OwnedFd::drop (ghost descriptor table), handle_alloc_error (assume false)"
+e_be!(e_be_check_device_state_nr, 43, 0x9, 0, 0);
+// @harness props=C03,C04 tier=thorough reach=off timeout=400 bound="request 43 (CHECK_DEVICE_STATE), header flags 0x1 (version 1), declared size = body size; body bytes, 0..=2 attached descriptors, three 64-bit negotiation words and handler outcome symbolic; one request" stubs="vmm-sys-util raw_recvmsg/raw_sendmsg (ghost stream socket), libc::close + OwnedFd::drop (ghost descriptor table), handle_alloc_error (assume false)"
+e_be!(e_be_check_device_state_plain, 43, 0x1, 0, 0);
+// @harness props=C03,C04,C07 tier=quick thorough_for=C04 reach=off timeout=400 bound="request 44 (GET_SHMEM_CONFIG), header flags 0x9 (version 1, NEED_REPLY), declared size = body size; body bytes, 0..=2 attached descriptors, three 64-bit negotiation words and handler outcome symbolic; one request" stubs="vmm-sys-util raw_recvmsg/raw_sendmsg (ghost stream socket), libc::close + OwnedFd::drop (ghost descriptor table), handle_alloc_error (assume false)"
+e_be!(e_be_get_shmem_config_nr, 44, 0x9, 0, 0);
+// @harness props=C03,C04,C07 tier=thorough reach=off timeout=400 bound="request 44 (GET_SHMEM_CONFIG), header flags 0x1 (version 1), declared size = body size; body bytes, 0..=2 attached descriptors, three 64-bit negotiation words and handler outcome symbolic; one request" stubs="vmm-sys-util raw_recvmsg/raw_sendmsg (ghost stream socket), libc::close + OwnedFd::drop (ghost descriptor table), handle_alloc_error (assume false)"
+e_be!(e_be_get_shmem_config_plain, 44, 0x1, 0, 0);
+// @harness props=C04,C05,C09 tier=thorough reach=off timeout=400 bound="request 2 with the REPLY bit set (flags 0xd): must be rejected; body bytes, 0..=2 attached descriptors, three 64-bit negotiation words and handler outcome symbolic; one request" stubs="vmm-sys-util raw_recvmsg/raw_sendmsg (ghost stream socket), libc::close + OwnedFd::drop (ghost descriptor table), handle_alloc_error (assume false)"
+e_be!(e_be_set_features_replybit, 2, 0xd, 0, 0);
+// @harness props=C04,C05,C09 tier=thorough reach=off timeout=400 bound="request 2 with declared size one byte short; body bytes, 0..=2 attached descriptors, three 64-bit negotiation words and handler outcome symbolic; one request" stubs="vmm-sys-util raw_recvmsg/raw_sendmsg (ghost stream socket), libc::close + OwnedFd::drop (ghost descriptor table), handle_alloc_error (assume false)"
+e_be!(e_be_set_features_short, 2, 0x9, -1, 0);
+// @harness props=C04,C05,C09 tier=thorough reach=off timeout=400 bound="request 2 with declared size one byte long; body bytes, 0..=2 attached descriptors, three 64-bit negotiation words and handler outcome symbolic; one request" stubs="vmm-sys-util raw_recvmsg/raw_sendmsg (ghost stream socket), libc::close + OwnedFd::drop (ghost descriptor table), handle_alloc_error (assume false)"
+e_be!(e_be_set_features_long, 2, 0x9, 1, 0);
+// @harness props=C04,C05,C09 tier=thorough reach=off timeout=400 bound="request 8 with the REPLY bit set (flags 0xd): must be rejected; body bytes, 0..=2 attached descriptors, three 64-bit negotiation words and handler outcome symbolic; one request" stubs="vmm-sys-util raw_recvmsg/raw_sendmsg (ghost stream socket), libc::close + OwnedFd::drop (ghost descriptor table), handle_alloc_error (assume false)"
+e_be!(e_be_set_vring_num_replybit, 8, 0xd, 0, 0);
+// @harness props=C04,C05,C09 tier=thorough reach=off timeout=400 bound="request 8 with declared size one byte short; body bytes, 0..=2 attached descriptors, three 64-bit negotiation words and handler outcome symbolic; one request" stubs="vmm-sys-util raw_recvmsg/raw_sendmsg (ghost stream socket), libc::close + OwnedFd::drop (ghost descriptor table), handle_alloc_error (assume false)"
+e_be!(e_be_set_vring_num_short, 8, 0x9, -1, 0);
+// @harness props=C04,C05,C09 tier=thorough reach=off timeout=400 bound="request 8 with declared size one byte long; body bytes, 0..=2 attached descriptors, three 64-bit negotiation words and handler outcome symbolic; one request" stubs="vmm-sys-util raw_recvmsg/raw_sendmsg (ghost stream socket), libc::close + OwnedFd::drop (ghost descriptor table), handle_alloc_error (assume false)"
+e_be!(e_be_set_vring_num_long, 8, 0x9, 1, 0);
+// @harness props=C04,C05,C09 tier=thorough reach=off timeout=400 bound="request 9 with the REPLY bit set (flags 0xd): must be rejected; body bytes, 0..=2 attached descriptors, three 64-bit negotiation words and handler outcome symbolic; one request" stubs="vmm-sys-util raw_recvmsg/raw_sendmsg (ghost stream socket), libc::close + OwnedFd::drop (ghost descriptor table), handle_alloc_error (assume false)"
+e_be!(e_be_set_vring_addr_replybit, 9, 0xd, 0, 0);
+// @harness props=C04,C05,C09 tier=thorough reach=off timeout=400 bound="request 9 with declared size one byte short; body bytes, 0..=2 attached descriptors, three 64-bit negotiation words and handler outcome symbolic; one request" stubs="vmm-sys-util raw_recvmsg/raw_sendmsg (ghost stream socket), libc::close + OwnedFd::drop (ghost descriptor table), handle_alloc_error (assume false)"
+e_be!(e_be_set_vring_addr_short, 9, 0x9, -1, 0);
+// @harness props=C04,C05,C09 tier=thorough reach=off timeout=400 bound="request 9 with declared size one byte long; body bytes, 0..=2 attached descriptors, three 64-bit negotiation words and handler outcome symbolic; one request" stubs="vmm-sys-util raw_recvmsg/raw_sendmsg (ghost stream socket), libc::close + OwnedFd::drop (ghost descriptor table), handle_alloc_error (assume false)"
+e_be!(e_be_set_vring_addr_long, 9, 0x9, 1, 0);
+// @harness props=C04,C05,C09 tier=quick reach=off timeout=400 bound="request 12 with the REPLY bit set (flags 0xd): must be rejected; body bytes, 0..=2 attached descriptors, three 64-bit negotiation words and handler outcome symbolic; one request" stubs="vmm-sys-util raw_recvmsg/raw_sendmsg (ghost stream socket), libc::close + OwnedFd::drop (ghost descriptor table), handle_alloc_error (assume false)"
+e_be!(e_be_set_vring_kick_replybit, 12, 0xd, 0, 0);
+// @harness props=C04,C05,C09 tier=quick reach=off timeout=400 bound="request 12 with declared size one byte short; body bytes, 0..=2 attached descriptors, three 64-bit negotiation words and handler outcome symbolic; one request" stubs="vmm-sys-util raw_recvmsg/raw_sendmsg (ghost stream socket), libc::close + OwnedFd::drop (ghost descriptor table), handle_alloc_error (assume false)"
+e_be!(e_be_set_vring_kick_short, 12, 0x9, -1, 0);
+// @harness props=C04,C05,C09 tier=quick reach=off timeout=400 bound="request 12 with declared size one byte long; body bytes, 0..=2 attached descriptors, three 64-bit negotiation words and handler outcome symbolic; one request" stubs="vmm-sys-util raw_recvmsg/raw_sendmsg (ghost stream socket), libc::close + OwnedFd::drop (ghost descriptor table), handle_alloc_error (assume false)"
+e_be!(e_be_set_vring_kick_long, 12, 0x9, 1, 0);
+// @harness props=C04,C05,C09 tier=thorough reach=off timeout=400 bound="request 18 with the REPLY bit set (flags 0xd): must be rejected; body bytes, 0..=2 attached descriptors, three 64-bit negotiation words and handler outcome symbolic; one request" stubs="vmm-sys-util raw_recvmsg/raw_sendmsg (ghost stream socket), libc::close + OwnedFd::drop (ghost descriptor table), handle_alloc_error (assume false)"
+e_be!(e_be_set_vring_enable_replybit, 18, 0xd, 0, 0);
+// @harness props=C04,C05,C09 tier=thorough reach=off timeout=400 bound="request 18 with declared size one byte short; body bytes, 0..=2 attached descriptors, three 64-bit negotiation words and handler outcome symbolic; one request" stubs="vmm-sys-util raw_recvmsg/raw_sendmsg (ghost stream socket), libc::close + OwnedFd::drop (ghost descriptor table), handle_alloc_error (assume false)"
+e_be!(e_be_set_vring_enable_short, 18, 0x9, -1, 0);
+// @harness props=C04,C05,C09 tier=thorough reach=off timeout=400 bound="request 18 with declared size one byte long; body bytes, 0..=2 attached descriptors, three 64-bit negotiation words and handler outcome symbolic; one request" stubs="vmm-sys-util raw_recvmsg/raw_sendmsg (ghost stream socket), libc::close + OwnedFd::drop (ghost descriptor table), handle_alloc_error (assume false)"
+e_be!(e_be_set_vring_enable_long, 18, 0x9, 1, 0);
+// @harness props=C04,C05,C09 tier=thorough reach=off timeout=400 bound="request 25 with the REPLY bit set (flags 0xd): must be rejected; body bytes, 0..=2 attached descriptors, three 64-bit negotiation words and handler outcome symbolic; one request" stubs="vmm-sys-util raw_recvmsg/raw_sendmsg (ghost stream socket), libc::close + OwnedFd::drop (ghost descriptor table), handle_alloc_error (assume false)"
+e_be!(e_be_set_config_replybit, 25, 0xd, 0, 4);
+// @harness props=C04,C05,C09 tier=thorough reach=off timeout=400 bound="request 25 with declared size one byte short; body bytes, 0..=2 attached descriptors, three 64-bit negotiation words and handler outcome symbolic; one request" stubs="vmm-sys-util raw_recvmsg/raw_sendmsg (ghost stream socket), libc::close + OwnedFd::drop (ghost descriptor table), handle_alloc_error (assume false)"
+e_be!(e_be_set_config_short, 25, 0x9, -1, 4);
+// @harness props=C04,C05,C09 tier=thorough reach=off timeout=400 bound="request 25 with declared size one byte long; body bytes, 0..=2 attached descriptors, three 64-bit negotiation words and handler outcome symbolic; one request" stubs="vmm-sys-util raw_recvmsg/raw_sendmsg (ghost stream socket), libc::close + OwnedFd::drop (ghost descriptor table), handle_alloc_error (assume false)"
+e_be!(e_be_set_config_long, 25, 0x9, 1, 4);
+// @harness props=C04,C05,C09 tier=thorough reach=off timeout=400 bound="request 37 with the REPLY bit set (flags 0xd): must be rejected; body bytes, 0..=2 attached descriptors, three 64-bit negotiation words and handler outcome symbolic; one request" stubs="vmm-sys-util raw_recvmsg/raw_sendmsg (ghost stream socket), libc::close + OwnedFd::drop (ghost descriptor table), handle_alloc_error (assume false)"
+e_be!(e_be_add_mem_reg_replybit, 37, 0xd, 0, 0);
+// @harness props=C04,C05,C09 tier=thorough reach=off timeout=400 bound="request 37 with declared size one byte short; body bytes, 0..=2 attached descriptors, three 64-bit negotiation words and handler outcome symbolic; one request" stubs="vmm-sys-util raw_recvmsg/raw_sendmsg (ghost stream socket), libc::close + OwnedFd::drop (ghost descriptor table), handle_alloc_error (assume false)"
+e_be!(e_be_add_mem_reg_short, 37, 0x9, -1, 0);
+// @harness props=C04,C05,C09 tier=thorough reach=off timeout=400 bound="request 37 with declared size one byte long; body bytes, 0..=2 attached descriptors, three 64-bit negotiation words and handler outcome symbolic; one request" stubs="vmm-sys-util raw_recvmsg/raw_sendmsg (ghost stream socket), libc::close + OwnedFd::drop (ghost descriptor table), handle_alloc_error (assume false)"
+e_be!(e_be_add_mem_reg_long, 37, 0x9, 1, 0);
+// @harness props=C04,C05,C09 tier=thorough reach=off timeout=400 bound="request 1 with the REPLY bit set (flags 0xd): must be rejected; body bytes, 0..=2 attached descriptors, three 64-bit negotiation words and handler outcome symbolic; one request" stubs="vmm-sys-util raw_recvmsg/raw_sendmsg (ghost stream socket), libc::close + OwnedFd::drop (ghost descriptor table), handle_alloc_error (assume false)"
+e_be!(e_be_get_features_replybit, 1, 0xd, 0, 0);
+// @harness props=C04,C05,C09 tier=thorough reach=off timeout=400 bound="request 1 with declared size one byte long; body bytes, 0..=2 attached descriptors, three 64-bit negotiation words and handler outcome symbolic; one request" stubs="vmm-sys-util raw_recvmsg/raw_sendmsg (ghost stream socket), libc::close + OwnedFd::drop (ghost descriptor table), handle_alloc_error (assume false)"
+e_be!(e_be_get_features_long, 1, 0x9, 1, 0);
+// @harness props=C04,C05,C09 tier=thorough reach=off timeout=400 bound="request 11 with the REPLY bit set (flags 0xd): must be rejected; body bytes, 0..=2 attached descriptors, three 64-bit negotiation words and handler outcome symbolic; one request" stubs="vmm-sys-util raw_recvmsg/raw_sendmsg (ghost stream socket), libc::close + OwnedFd::drop (ghost descriptor table), handle_alloc_error (assume false)"
+e_be!(e_be_get_vring_base_replybit, 11, 0xd, 0, 0);
+// @harness props=C04,C05,C09 tier=thorough reach=off timeout=400 bound="request 11 with declared size one byte short; body bytes, 0..=2 attached descriptors, three 64-bit negotiation words and handler outcome symbolic; one request" stubs="vmm-sys-util raw_recvmsg/raw_sendmsg (ghost stream socket), libc::close + OwnedFd::drop (ghost descriptor table), handle_alloc_error (assume false)"
+e_be!(e_be_get_vring_base_short, 11, 0x9, -1, 0);
+// @harness props=C04,C05,C09 tier=thorough reach=off timeout=400 bound="request 11 with declared size one byte long; body bytes, 0..=2 attached descriptors, three 64-bit negotiation words and handler outcome symbolic; one request" stubs="vmm-sys-util raw_recvmsg/raw_sendmsg (ghost stream socket), libc::close + OwnedFd::drop (ghost descriptor table), handle_alloc_error (assume false)"
+e_be!(e_be_get_vring_base_long, 11, 0x9, 1, 0);
+// @harness props=C04,C05,C09 tier=quick reach=off timeout=400 bound="request 7 (SET_LOG_FD) which this server does not implement: error, no handler call, nothing written; body bytes, 0..=2 attached descriptors, three 64-bit negotiation words and handler outcome symbolic; one request" stubs="vmm-sys-util raw_recvmsg/raw_sendmsg (ghost stream socket), libc::close + OwnedFd::drop (ghost descriptor table), handle_alloc_error (assume false)"
+e_be!(e_be_unserved_set_log_fd, 7, 0x9, 0, 0);
+// @harness props=C04,C05,C09 tier=thorough reach=off timeout=400 bound="request 19 (SEND_RARP) which this server does not implement: error, no handler call, nothing written; body bytes, 0..=2 attached descriptors, three 64-bit negotiation words and handler outcome symbolic; one request" stubs="vmm-sys-util raw_recvmsg/raw_sendmsg (ghost stream socket), libc::close + OwnedFd::drop (ghost descriptor table), handle_alloc_error (assume false)"
+e_be!(e_be_unserved_send_rarp, 19, 0x9, 0, 0);
+// @harness props=C04,C05,C09 tier=thorough reach=off timeout=400 bound="request 20 (NET_SET_MTU) which this server does not implement: error, no handler call, nothing written; body bytes, 0..=2 attached descriptors, three 64-bit negotiation words and handler outcome symbolic; one request" stubs="vmm-sys-util raw_recvmsg/raw_sendmsg (ghost stream socket), libc::close + OwnedFd::drop (ghost descriptor table), handle_alloc_error (assume false)"
+e_be!(e_be_unserved_net_set_mtu, 20, 0x9, 0, 0);
+// @harness props=C04,C05,C09 tier=thorough reach=off timeout=400 bound="request 22 (IOTLB_MSG) which this server does not implement: error, no handler call, nothing written; body bytes, 0..=2 attached descriptors, three 64-bit negotiation words and handler outcome symbolic; one request" stubs="vmm-sys-util raw_recvmsg/raw_sendmsg (ghost stream socket), libc::close + OwnedFd::drop (ghost descriptor table), handle_alloc_error (assume false)"
+e_be!(e_be_unserved_iotlb_msg, 22, 0x9, 0, 0);
+// @harness props=C04,C05,C09 tier=thorough reach=off timeout=400 bound="request 23 (SET_VRING_ENDIAN) which this server does not implement: error, no handler call, nothing written; body bytes, 0..=2 attached descriptors, three 64-bit negotiation words and handler outcome symbolic; one request" stubs="vmm-sys-util raw_recvmsg/raw_sendmsg (ghost stream socket), libc::close + OwnedFd::drop (ghost descriptor table), handle_alloc_error (assume false)"
+e_be!(e_be_unserved_set_vring_endian, 23, 0x9, 0, 0);
+// @harness props=C04,C05,C09 tier=thorough reach=off timeout=400 bound="request 26 (CREATE_CRYPTO) which this server does not implement: error, no handler call, nothing written; body bytes, 0..=2 attached descriptors, three 64-bit negotiation words and handler outcome symbolic; one request" stubs="vmm-sys-util raw_recvmsg/raw_sendmsg (ghost stream socket), libc::close + OwnedFd::drop (ghost descriptor table), handle_alloc_error (assume false)"
+e_be!(e_be_unserved_create_crypto, 26, 0x9, 0, 0);
+// @harness props=C04,C05,C09 tier=thorough reach=off timeout=400 bound="request 27 (CLOSE_CRYPTO) which this server does not implement: error, no handler call, nothing written; body bytes, 0..=2 attached descriptors, three 64-bit negotiation words and handler outcome symbolic; one request" stubs="vmm-sys-util raw_recvmsg/raw_sendmsg (ghost stream socket), libc::close + OwnedFd::drop (ghost descriptor table), handle_alloc_error (assume false)"
+e_be!(e_be_unserved_close_crypto, 27, 0x9, 0, 0);
+// @harness props=C04,C05,C09 tier=thorough reach=off timeout=400 bound="request 28 (POSTCOPY_ADVISE) which this server does not implement: error, no handler call, nothing written; body bytes, 0..=2 attached descriptors, three 64-bit negotiation words and handler outcome symbolic; one request" stubs="vmm-sys-util raw_recvmsg/raw_sendmsg (ghost stream socket), libc::close + OwnedFd::drop (ghost descriptor table), handle_alloc_error (assume false)"
+e_be!(e_be_unserved_postcopy_advise, 28, 0x9, 0, 0);
+// @harness props=C04,C05,C09 tier=thorough reach=off timeout=400 bound="request 29 (POSTCOPY_LISTEN) which this server does not implement: error, no handler call, nothing written; body bytes, 0..=2 attached descriptors, three 64-bit negotiation words and handler outcome symbolic; one request" stubs="vmm-sys-util raw_recvmsg/raw_sendmsg (ghost stream socket), libc::close + OwnedFd::drop (ghost descriptor table), handle_alloc_error (assume false)"
+e_be!(e_be_unserved_postcopy_listen, 29, 0x9, 0, 0);
+// @harness props=C04,C05,C09 tier=thorough reach=off timeout=400 bound="request 30 (POSTCOPY_END) which this server does not implement: error, no handler call, nothing written; body bytes, 0..=2 attached descriptors, three 64-bit negotiation words and handler outcome symbolic; one request" stubs="vmm-sys-util raw_recvmsg/raw_sendmsg (ghost stream socket), libc::close + OwnedFd::drop (ghost descriptor table), handle_alloc_error (assume false)"
+e_be!(e_be_unserved_postcopy_end, 30, 0x9, 0, 0);
+// @harness props=C04,C05,C09 tier=thorough reach=off timeout=400 bound="request 35 (VRING_KICK) which this server does not implement: error, no handler call, nothing written; body bytes, 0..=2 attached descriptors, three 64-bit negotiation words and handler outcome symbolic; one request" stubs="vmm-sys-util raw_recvmsg/raw_sendmsg (ghost stream socket), libc::close + OwnedFd::drop (ghost descriptor table), handle_alloc_error (assume false)"
+e_be!(e_be_unserved_vring_kick, 35, 0x9, 0, 0);
+// @harness props=C04,C05,C09 tier=thorough reach=off timeout=400 bound="request 39 (SET_STATUS) which this server does not implement: error, no handler call, nothing written; body bytes, 0..=2 attached descriptors, three 64-bit negotiation words and handler outcome symbolic; one request" stubs="vmm-sys-util raw_recvmsg/raw_sendmsg (ghost stream socket), libc::close + OwnedFd::drop (ghost descriptor table), handle_alloc_error (assume false)"
+e_be!(e_be_unserved_set_status, 39, 0x9, 0, 0);
+// @harness props=C04,C05,C09 tier=thorough reach=off timeout=400 bound="request 40 (GET_STATUS) which this server does not implement: error, no handler call, nothing written; body bytes, 0..=2 attached descriptors, three 64-bit negotiation words and handler outcome symbolic; one request" stubs="vmm-sys-util raw_recvmsg/raw_sendmsg (ghost stream socket), libc::close + OwnedFd::drop (ghost descriptor table), handle_alloc_error (assume false)"
+e_be!(e_be_unserved_get_status, 40, 0x9, 0, 0);
